@@ -1,0 +1,626 @@
+//go:build verif
+
+// Contracts for headers and footers (properties C11, C02), read by /verif/engine (govc).
+// Comments only: with or without the build tag this file adds no code to the package.
+package document
+
+// ---- section settings used by the header/footer calls -----------------------------------------------------
+
+// Found-or-created like getSectionProperties (zz_contracts_verif_body.go): the FIRST section-properties element of
+// the body, or a fresh one (no references yet) appended at the end. Never adds a second one; every other body
+// element stays where it was; the only field written on an existing object is the relationship namespace of the
+// returned element, and only when it was empty.
+//@ func (*Document).getSectionPropertiesForHeaderFooter
+//@ props C11, C08
+//@ requires d != nil && d.Body != nil && elemsOK(d.Body.Elements)
+//@ ensures d.Body == old(d.Body) && elemsOK(d.Body.Elements)
+//@ ensures result != nil && result.XmlnsR != ""
+//@ ensures !old(noSect(d.Body.Elements)) ==> allocated(result) && len(d.Body.Elements) == old(len(d.Body.Elements)) && (exists p int :: firstSectAt(d.Body.Elements, p) && d.Body.Elements[p].(*SectionProperties) == result)
+//@ ensures old(noSect(d.Body.Elements)) ==> fresh(result) && len(d.Body.Elements) == old(len(d.Body.Elements)) + 1 && isSect(d.Body.Elements[old(len(d.Body.Elements))]) && d.Body.Elements[old(len(d.Body.Elements))].(*SectionProperties) == result
+//@ ensures old(noSect(d.Body.Elements)) ==> len(result.HeaderReferences) == 0 && len(result.FooterReferences) == 0 && result.TitlePage == nil
+//@ ensures forall j int :: 0 <= j && j < old(len(d.Body.Elements)) ==> d.Body.Elements[j] == old(d.Body.Elements[j])
+//@ ensures forall s *SectionProperties :: {s.XmlnsR} allocated(s) && (s != result || old(s.XmlnsR) != "") ==> s.XmlnsR == old(s.XmlnsR)
+//@ ensures unchangedExcept("Body.Elements", "cell:any", "SectionProperties.XmlnsR")
+//@ loop 1
+//@   invariant 0 <= #i && #i <= len(d.Body.Elements) && unchangedHeap() && d.Body != nil
+//@   invariant forall q int :: 0 <= q && q < #i ==> !isSect(d.Body.Elements[q])
+//@   decreases len(d.Body.Elements) - #i
+
+// ---- part names, relationships and content types ------------------------------------------------------------
+
+// hfFile(prefix, kind): the file name of the part of a kind ("header"/"footer" + "1.xml" | "first.xml" | "even.xml");
+// the part itself is "word/" + hfFile(prefix, kind). validKind: one of the three kinds of the format.
+//@ spec validKind(kind HeaderFooterType) bool = kind == HeaderFooterTypeDefault || kind == HeaderFooterTypeFirst || kind == HeaderFooterTypeEven
+//@ spec hfFile(prefix string, kind HeaderFooterType) string = ite(kind == HeaderFooterTypeFirst, prefix + "first.xml", ite(kind == HeaderFooterTypeEven, prefix + "even.xml", prefix + "1.xml"))
+
+// One part name per kind: the name is the one above, and for the three kinds it determines the kind
+// (two different kinds never share a part).
+//@ func getFileNameForType
+//@ props C11
+//@ modifies nothing
+//@ ensures result == hfFile(typePrefix, headerType)
+//@ ensures validKind(headerType) ==> ((result == typePrefix + "1.xml") == (headerType == HeaderFooterTypeDefault)) && ((result == typePrefix + "first.xml") == (headerType == HeaderFooterTypeFirst)) && ((result == typePrefix + "even.xml") == (headerType == HeaderFooterTypeEven))
+
+// relFirstAt(rs, j, t, f): rs[j] is the first relationship of type t with target f; relNone: there is none;
+// relIDsUnique: no two relationships of the list share an id.
+//@ spec relFirstAt(rs []Relationship, j int, t string, f string) bool = 0 <= j && j < len(rs) && rs[j].Type == t && rs[j].Target == f && (forall q int :: {rs[q]} 0 <= q && q < j ==> !(rs[q].Type == t && rs[q].Target == f))
+//@ spec relNone(rs []Relationship, t string, f string) bool = forall q int :: {rs[q]} 0 <= q && q < len(rs) ==> !(rs[q].Type == t && rs[q].Target == f)
+//@ spec relIDsUnique(rs []Relationship) bool = forall a int, b int :: {rs[a], rs[b]} 0 <= a && a < b && b < len(rs) ==> rs[a].ID != rs[b].ID
+
+// relResolves(rs, id, t, f): the id resolves, in the list, to a relationship of type t with target f.
+//@ spec relResolves(rs []Relationship, id string, t string, f string) bool = exists j int :: {rs[j]} 0 <= j && j < len(rs) && rs[j].ID == id && rs[j].Type == t && rs[j].Target == f
+
+// The relationship of a header/footer part is found or created: if the document relationship list has a relationship
+// of the type to the target, nothing changes and the id of the first such relationship is returned (a redefined kind
+// does not leave a second relationship to the same part); otherwise exactly one relationship (fresh id that no
+// relationship carries and that is not "rId1", the type, the target) is appended and every earlier one stays.
+// Either way the returned id resolves, in the list, to a relationship of that type and target; unique ids stay unique.
+//@ func (*Document).headerFooterRelationshipID
+//@ props C11, C02
+//@ requires d != nil && d.documentRelationships != nil
+//@ ensures d.documentRelationships == old(d.documentRelationships)
+//@ ensures !old(relNone(d.documentRelationships.Relationships, relType, fileName)) ==> unchangedHeap() && (exists j int :: relFirstAt(d.documentRelationships.Relationships, j, relType, fileName) && d.documentRelationships.Relationships[j].ID == result) && relResolves(d.documentRelationships.Relationships, result, relType, fileName)
+//@ ensures old(relNone(d.documentRelationships.Relationships, relType, fileName)) ==> len(d.documentRelationships.Relationships) == old(len(d.documentRelationships.Relationships)) + 1 && d.documentRelationships.Relationships[old(len(d.documentRelationships.Relationships))].ID == result && d.documentRelationships.Relationships[old(len(d.documentRelationships.Relationships))].Type == relType && d.documentRelationships.Relationships[old(len(d.documentRelationships.Relationships))].Target == fileName && relResolves(d.documentRelationships.Relationships, result, relType, fileName)
+//@ ensures old(relNone(d.documentRelationships.Relationships, relType, fileName)) ==> result != "rId1" && old(relIDFree(d.documentRelationships.Relationships, result))
+//@ ensures forall j int :: 0 <= j && j < old(len(d.documentRelationships.Relationships)) ==> d.documentRelationships.Relationships[j] == old(d.documentRelationships.Relationships[j])
+//@ ensures old(relIDsUnique(d.documentRelationships.Relationships)) ==> relIDsUnique(d.documentRelationships.Relationships)
+//@ ensures unchangedExcept("Relationships.Relationships", "Relationship.*")
+//@ loop 1
+//@   invariant 0 <= #i && #i <= len(d.documentRelationships.Relationships) && unchangedHeap() && d.documentRelationships != nil
+//@   invariant forall q int :: 0 <= q && q < #i ==> !(d.documentRelationships.Relationships[q].Type == relType && d.documentRelationships.Relationships[q].Target == fileName)
+//@   decreases len(d.documentRelationships.Relationships) - #i
+
+// ctHas(os, name): the content-type list has an override for the part.
+//@ spec ctHas(os []Override, name string) bool = exists o int :: 0 <= o && o < len(os) && os[o].PartName == name
+
+// addContentType registers the override of a part once: an existing override for the part is kept (nothing changes),
+// otherwise exactly one (part, type) is appended; earlier overrides stay.
+//@ func (*Document).addContentType
+//@ props C11
+//@ requires d != nil && d.contentTypes != nil
+//@ ensures d.contentTypes == old(d.contentTypes)
+//@ ensures old(ctHas(d.contentTypes.Overrides, "/" + partName)) ==> unchangedHeap()
+//@ ensures !old(ctHas(d.contentTypes.Overrides, "/" + partName)) ==> len(d.contentTypes.Overrides) == old(len(d.contentTypes.Overrides)) + 1 && d.contentTypes.Overrides[old(len(d.contentTypes.Overrides))].PartName == "/" + partName && d.contentTypes.Overrides[old(len(d.contentTypes.Overrides))].ContentType == contentType
+//@ ensures forall j int :: 0 <= j && j < old(len(d.contentTypes.Overrides)) ==> d.contentTypes.Overrides[j] == old(d.contentTypes.Overrides[j])
+//@ ensures ctHas(d.contentTypes.Overrides, "/" + partName)
+//@ ensures unchangedExcept("ContentTypes.Overrides", "Override.*")
+//@ loop 1
+//@   invariant 0 <= #i && #i <= len(d.contentTypes.Overrides) && unchangedHeap() && d.contentTypes != nil
+//@   invariant forall q int :: 0 <= q && q < #i ==> d.contentTypes.Overrides[q].PartName != "/" + partName
+//@   decreases len(d.contentTypes.Overrides) - #i
+
+// ---- references in the section settings -------------------------------------------------------------------
+
+// isFirstSect(es, s): s is the section-properties element the header/footer calls work on (the first one of the body).
+//@ spec isFirstSect(es []any, s *SectionProperties) bool = exists p int :: firstSectAt(es, p) && es[p].(*SectionProperties) == s
+
+// hdrFirstAt(rs, k, kind): rs[k] is the first reference of the kind; hdrNone(rs, kind): there is none.
+//@ spec hdrFirstAt(rs []*HeaderFooterReference, k int, kind string) bool = 0 <= k && k < len(rs) && rs[k] != nil && rs[k].Type == kind && (forall q int :: 0 <= q && q < k ==> rs[q] == nil || rs[q].Type != kind)
+//@ spec hdrNone(rs []*HeaderFooterReference, kind string) bool = forall q int :: 0 <= q && q < len(rs) ==> rs[q] == nil || rs[q].Type != kind
+// hdrOneAt(rs, k, kind, id): rs[k] is the only reference of the kind in the list, and it carries the id; hdrOne: some k.
+//@ spec hdrOneAt(rs []*HeaderFooterReference, k int, kind string, id string) bool = 0 <= k && k < len(rs) && rs[k] != nil && rs[k].Type == kind && rs[k].ID == id && (forall q int :: 0 <= q && q < len(rs) && q != k ==> rs[q] == nil || rs[q].Type != kind)
+//@ spec hdrOne(rs []*HeaderFooterReference, kind string, id string) bool = exists k int :: hdrOneAt(rs, k, kind, id)
+// hdrAtMostOne(rs, kind): no two entries of the list are references of the kind.
+//@ spec hdrAtMostOne(rs []*HeaderFooterReference, kind string) bool = forall a int, b int :: 0 <= a && a < b && b < len(rs) && rs[a] != nil && rs[a].Type == kind ==> rs[b] == nil || rs[b].Type != kind
+
+// addHeaderReference(kind, id): the section settings are found or created (never a second element in the body, every
+// other body element stays in place). If they had a reference of the kind, the FIRST such reference now carries the
+// new id and the list is otherwise the same list of the same objects; if they had none, one fresh reference
+// (kind, id) is appended and the earlier entries stay. No reference object changes its kind, no other reference
+// changes its id, footer references and every other section-properties object are untouched.
+//@ func (*Document).addHeaderReference
+//@ props C11, C02
+//@ requires d != nil && d.Body != nil && elemsOK(d.Body.Elements)
+//@ ensures d.Body == old(d.Body) && elemsOK(d.Body.Elements)
+//@ ensures !old(noSect(d.Body.Elements)) ==> len(d.Body.Elements) == old(len(d.Body.Elements))
+//@ ensures old(noSect(d.Body.Elements)) ==> len(d.Body.Elements) == old(len(d.Body.Elements)) + 1 && isSect(d.Body.Elements[old(len(d.Body.Elements))]) && fresh(d.Body.Elements[old(len(d.Body.Elements))].(*SectionProperties))
+//@ ensures forall j int :: 0 <= j && j < old(len(d.Body.Elements)) ==> d.Body.Elements[j] == old(d.Body.Elements[j])
+//@ ensures old(noSect(d.Body.Elements)) ==> len(d.Body.Elements[old(len(d.Body.Elements))].(*SectionProperties).HeaderReferences) == 1 && len(d.Body.Elements[old(len(d.Body.Elements))].(*SectionProperties).FooterReferences) == 0 && d.Body.Elements[old(len(d.Body.Elements))].(*SectionProperties).TitlePage == nil
+//@ ensures old(noSect(d.Body.Elements)) ==> fresh(d.Body.Elements[old(len(d.Body.Elements))].(*SectionProperties).HeaderReferences[0]) && d.Body.Elements[old(len(d.Body.Elements))].(*SectionProperties).HeaderReferences[0].Type == string(headerType) && d.Body.Elements[old(len(d.Body.Elements))].(*SectionProperties).HeaderReferences[0].ID == headerID
+//@ ensures forall s *SectionProperties :: {s.HeaderReferences} allocated(s) && old(isFirstSect(d.Body.Elements, s)) && old(hdrNone(s.HeaderReferences, string(headerType))) ==> len(s.HeaderReferences) == old(len(s.HeaderReferences)) + 1 && fresh(s.HeaderReferences[old(len(s.HeaderReferences))]) && s.HeaderReferences[old(len(s.HeaderReferences))].Type == string(headerType) && s.HeaderReferences[old(len(s.HeaderReferences))].ID == headerID && (forall q int :: 0 <= q && q < old(len(s.HeaderReferences)) ==> s.HeaderReferences[q] == old(s.HeaderReferences[q]))
+//@ ensures forall s *SectionProperties, k int :: {s.HeaderReferences[k]} allocated(s) && old(isFirstSect(d.Body.Elements, s)) && old(hdrFirstAt(s.HeaderReferences, k, string(headerType))) ==> len(s.HeaderReferences) == old(len(s.HeaderReferences)) && s.HeaderReferences[k].ID == headerID && (forall q int :: 0 <= q && q < len(s.HeaderReferences) ==> s.HeaderReferences[q] == old(s.HeaderReferences[q])) && (forall r *HeaderFooterReference :: allocated(r) && r != old(s.HeaderReferences[k]) ==> r.ID == old(r.ID))
+//@ ensures (old(noSect(d.Body.Elements)) || (forall s *SectionProperties :: allocated(s) && old(isFirstSect(d.Body.Elements, s)) ==> old(hdrNone(s.HeaderReferences, string(headerType))))) ==> forall r *HeaderFooterReference :: allocated(r) ==> r.ID == old(r.ID)
+//@ ensures forall s *SectionProperties :: {s.HeaderReferences} allocated(s) && !old(isFirstSect(d.Body.Elements, s)) ==> s.HeaderReferences == old(s.HeaderReferences)
+//@ ensures forall s *SectionProperties :: {s.XmlnsR} allocated(s) && !old(isFirstSect(d.Body.Elements, s)) ==> s.XmlnsR == old(s.XmlnsR)
+//@ ensures forall s *SectionProperties :: {s.XmlnsR} allocated(s) && old(s.XmlnsR) != "" ==> s.XmlnsR == old(s.XmlnsR)
+//@ ensures old(noSect(d.Body.Elements)) ==> hdrOneAt(d.Body.Elements[old(len(d.Body.Elements))].(*SectionProperties).HeaderReferences, 0, string(headerType), headerID)
+//@ ensures forall s *SectionProperties :: {s.HeaderReferences} allocated(s) && old(isFirstSect(d.Body.Elements, s)) && old(hdrNone(s.HeaderReferences, string(headerType))) ==> hdrOneAt(s.HeaderReferences, old(len(s.HeaderReferences)), string(headerType), headerID)
+//@ ensures forall s *SectionProperties, k int :: {s.HeaderReferences[k]} allocated(s) && old(isFirstSect(d.Body.Elements, s)) && old(hdrFirstAt(s.HeaderReferences, k, string(headerType))) && old(hdrAtMostOne(s.HeaderReferences, string(headerType))) ==> hdrOneAt(s.HeaderReferences, k, string(headerType), headerID)
+//@ ensures forall s *SectionProperties :: {s.HeaderReferences} allocated(s) && old(isFirstSect(d.Body.Elements, s)) && string(headerType) != "default" && old(hdrAtMostOne(s.HeaderReferences, "default")) ==> hdrAtMostOne(s.HeaderReferences, "default")
+//@ ensures forall s *SectionProperties :: {s.HeaderReferences} allocated(s) && old(isFirstSect(d.Body.Elements, s)) && string(headerType) != "first" && old(hdrAtMostOne(s.HeaderReferences, "first")) ==> hdrAtMostOne(s.HeaderReferences, "first")
+//@ ensures forall s *SectionProperties :: {s.HeaderReferences} allocated(s) && old(isFirstSect(d.Body.Elements, s)) && string(headerType) != "even" && old(hdrAtMostOne(s.HeaderReferences, "even")) ==> hdrAtMostOne(s.HeaderReferences, "even")
+//@ ensures unchangedExcept("Body.Elements", "cell:any", "SectionProperties.XmlnsR", "SectionProperties.HeaderReferences", "HeaderFooterReference.ID", "cell:*HeaderFooterReference")
+//@ loop 1
+//@   invariant 0 <= #i && #i <= len(sectPr.HeaderReferences)
+//@   invariant forall q int :: 0 <= q && q < #i ==> sectPr.HeaderReferences[q] == nil || sectPr.HeaderReferences[q].Type != string(headerType)
+//@   decreases len(sectPr.HeaderReferences) - #i
+
+// ftrFirstAt(rs, k, kind): rs[k] is the first reference of the kind; ftrNone(rs, kind): there is none.
+//@ spec ftrFirstAt(rs []*FooterReference, k int, kind string) bool = 0 <= k && k < len(rs) && rs[k] != nil && rs[k].Type == kind && (forall q int :: 0 <= q && q < k ==> rs[q] == nil || rs[q].Type != kind)
+//@ spec ftrNone(rs []*FooterReference, kind string) bool = forall q int :: 0 <= q && q < len(rs) ==> rs[q] == nil || rs[q].Type != kind
+// ftrOneAt(rs, k, kind, id): rs[k] is the only reference of the kind in the list, and it carries the id; ftrOne: some k.
+//@ spec ftrOneAt(rs []*FooterReference, k int, kind string, id string) bool = 0 <= k && k < len(rs) && rs[k] != nil && rs[k].Type == kind && rs[k].ID == id && (forall q int :: 0 <= q && q < len(rs) && q != k ==> rs[q] == nil || rs[q].Type != kind)
+//@ spec ftrOne(rs []*FooterReference, kind string, id string) bool = exists k int :: ftrOneAt(rs, k, kind, id)
+// ftrAtMostOne(rs, kind): no two entries of the list are references of the kind.
+//@ spec ftrAtMostOne(rs []*FooterReference, kind string) bool = forall a int, b int :: 0 <= a && a < b && b < len(rs) && rs[a] != nil && rs[a].Type == kind ==> rs[b] == nil || rs[b].Type != kind
+
+// addFooterReference(kind, id): the same for footers. The section settings are found or created (never a second element in the body, every
+// other body element stays in place). If they had a reference of the kind, the FIRST such reference now carries the
+// new id and the list is otherwise the same list of the same objects; if they had none, one fresh reference
+// (kind, id) is appended and the earlier entries stay. No reference object changes its kind, no other reference
+// changes its id, header references and every other section-properties object are untouched.
+//@ func (*Document).addFooterReference
+//@ props C11, C02
+//@ requires d != nil && d.Body != nil && elemsOK(d.Body.Elements)
+//@ ensures d.Body == old(d.Body) && elemsOK(d.Body.Elements)
+//@ ensures !old(noSect(d.Body.Elements)) ==> len(d.Body.Elements) == old(len(d.Body.Elements))
+//@ ensures old(noSect(d.Body.Elements)) ==> len(d.Body.Elements) == old(len(d.Body.Elements)) + 1 && isSect(d.Body.Elements[old(len(d.Body.Elements))]) && fresh(d.Body.Elements[old(len(d.Body.Elements))].(*SectionProperties))
+//@ ensures forall j int :: 0 <= j && j < old(len(d.Body.Elements)) ==> d.Body.Elements[j] == old(d.Body.Elements[j])
+//@ ensures old(noSect(d.Body.Elements)) ==> len(d.Body.Elements[old(len(d.Body.Elements))].(*SectionProperties).FooterReferences) == 1 && len(d.Body.Elements[old(len(d.Body.Elements))].(*SectionProperties).HeaderReferences) == 0 && d.Body.Elements[old(len(d.Body.Elements))].(*SectionProperties).TitlePage == nil
+//@ ensures old(noSect(d.Body.Elements)) ==> fresh(d.Body.Elements[old(len(d.Body.Elements))].(*SectionProperties).FooterReferences[0]) && d.Body.Elements[old(len(d.Body.Elements))].(*SectionProperties).FooterReferences[0].Type == string(footerType) && d.Body.Elements[old(len(d.Body.Elements))].(*SectionProperties).FooterReferences[0].ID == footerID
+//@ ensures forall s *SectionProperties :: {s.FooterReferences} allocated(s) && old(isFirstSect(d.Body.Elements, s)) && old(ftrNone(s.FooterReferences, string(footerType))) ==> len(s.FooterReferences) == old(len(s.FooterReferences)) + 1 && fresh(s.FooterReferences[old(len(s.FooterReferences))]) && s.FooterReferences[old(len(s.FooterReferences))].Type == string(footerType) && s.FooterReferences[old(len(s.FooterReferences))].ID == footerID && (forall q int :: 0 <= q && q < old(len(s.FooterReferences)) ==> s.FooterReferences[q] == old(s.FooterReferences[q]))
+//@ ensures forall s *SectionProperties, k int :: {s.FooterReferences[k]} allocated(s) && old(isFirstSect(d.Body.Elements, s)) && old(ftrFirstAt(s.FooterReferences, k, string(footerType))) ==> len(s.FooterReferences) == old(len(s.FooterReferences)) && s.FooterReferences[k].ID == footerID && (forall q int :: 0 <= q && q < len(s.FooterReferences) ==> s.FooterReferences[q] == old(s.FooterReferences[q])) && (forall r *FooterReference :: allocated(r) && r != old(s.FooterReferences[k]) ==> r.ID == old(r.ID))
+//@ ensures (old(noSect(d.Body.Elements)) || (forall s *SectionProperties :: allocated(s) && old(isFirstSect(d.Body.Elements, s)) ==> old(ftrNone(s.FooterReferences, string(footerType))))) ==> forall r *FooterReference :: allocated(r) ==> r.ID == old(r.ID)
+//@ ensures forall s *SectionProperties :: {s.FooterReferences} allocated(s) && !old(isFirstSect(d.Body.Elements, s)) ==> s.FooterReferences == old(s.FooterReferences)
+//@ ensures forall s *SectionProperties :: {s.XmlnsR} allocated(s) && !old(isFirstSect(d.Body.Elements, s)) ==> s.XmlnsR == old(s.XmlnsR)
+//@ ensures forall s *SectionProperties :: {s.XmlnsR} allocated(s) && old(s.XmlnsR) != "" ==> s.XmlnsR == old(s.XmlnsR)
+//@ ensures old(noSect(d.Body.Elements)) ==> ftrOneAt(d.Body.Elements[old(len(d.Body.Elements))].(*SectionProperties).FooterReferences, 0, string(footerType), footerID)
+//@ ensures forall s *SectionProperties :: {s.FooterReferences} allocated(s) && old(isFirstSect(d.Body.Elements, s)) && old(ftrNone(s.FooterReferences, string(footerType))) ==> ftrOneAt(s.FooterReferences, old(len(s.FooterReferences)), string(footerType), footerID)
+//@ ensures forall s *SectionProperties, k int :: {s.FooterReferences[k]} allocated(s) && old(isFirstSect(d.Body.Elements, s)) && old(ftrFirstAt(s.FooterReferences, k, string(footerType))) && old(ftrAtMostOne(s.FooterReferences, string(footerType))) ==> ftrOneAt(s.FooterReferences, k, string(footerType), footerID)
+//@ ensures forall s *SectionProperties :: {s.FooterReferences} allocated(s) && old(isFirstSect(d.Body.Elements, s)) && string(footerType) != "default" && old(ftrAtMostOne(s.FooterReferences, "default")) ==> ftrAtMostOne(s.FooterReferences, "default")
+//@ ensures forall s *SectionProperties :: {s.FooterReferences} allocated(s) && old(isFirstSect(d.Body.Elements, s)) && string(footerType) != "first" && old(ftrAtMostOne(s.FooterReferences, "first")) ==> ftrAtMostOne(s.FooterReferences, "first")
+//@ ensures forall s *SectionProperties :: {s.FooterReferences} allocated(s) && old(isFirstSect(d.Body.Elements, s)) && string(footerType) != "even" && old(ftrAtMostOne(s.FooterReferences, "even")) ==> ftrAtMostOne(s.FooterReferences, "even")
+//@ ensures unchangedExcept("Body.Elements", "cell:any", "SectionProperties.XmlnsR", "SectionProperties.FooterReferences", "FooterReference.ID", "cell:*FooterReference")
+//@ loop 1
+//@   invariant 0 <= #i && #i <= len(sectPr.FooterReferences)
+//@   invariant forall q int :: 0 <= q && q < #i ==> sectPr.FooterReferences[q] == nil || sectPr.FooterReferences[q].Type != string(footerType)
+//@   decreases len(sectPr.FooterReferences) - #i
+
+// SetDifferentFirstPage only sets or clears the title-page flag of the (found or created) section settings:
+// header and footer references, relationships and parts are untouched, no second section-properties element appears.
+//@ func (*Document).SetDifferentFirstPage
+//@ props C11
+//@ requires d != nil && d.Body != nil && elemsOK(d.Body.Elements)
+//@ ensures d.Body == old(d.Body) && elemsOK(d.Body.Elements)
+//@ ensures !old(noSect(d.Body.Elements)) ==> len(d.Body.Elements) == old(len(d.Body.Elements))
+//@ ensures old(noSect(d.Body.Elements)) ==> len(d.Body.Elements) == old(len(d.Body.Elements)) + 1 && isSect(d.Body.Elements[old(len(d.Body.Elements))]) && fresh(d.Body.Elements[old(len(d.Body.Elements))].(*SectionProperties))
+//@ ensures old(noSect(d.Body.Elements)) ==> len(d.Body.Elements[old(len(d.Body.Elements))].(*SectionProperties).HeaderReferences) == 0 && len(d.Body.Elements[old(len(d.Body.Elements))].(*SectionProperties).FooterReferences) == 0 && (d.Body.Elements[old(len(d.Body.Elements))].(*SectionProperties).TitlePage != nil) == different
+//@ ensures forall j int :: 0 <= j && j < old(len(d.Body.Elements)) ==> d.Body.Elements[j] == old(d.Body.Elements[j])
+//@ ensures forall s *SectionProperties :: {s.TitlePage} allocated(s) && old(isFirstSect(d.Body.Elements, s)) ==> (s.TitlePage != nil) == different
+//@ ensures forall s *SectionProperties :: {s.TitlePage} allocated(s) && !old(isFirstSect(d.Body.Elements, s)) ==> s.TitlePage == old(s.TitlePage)
+//@ ensures forall s *SectionProperties :: {s.XmlnsR} allocated(s) && (old(s.XmlnsR) != "" || !old(isFirstSect(d.Body.Elements, s))) ==> s.XmlnsR == old(s.XmlnsR)
+//@ ensures unchangedExcept("Body.Elements", "cell:any", "SectionProperties.XmlnsR", "SectionProperties.TitlePage")
+
+// hdrCanon / ftrCanon: every reference of a valid kind resolves to a relationship of the header (footer) type whose
+// target is the part name of that very kind.
+//@ spec hdrCanon(rs []*HeaderFooterReference, rels []Relationship) bool = forall q int :: {rs[q]} 0 <= q && q < len(rs) && rs[q] != nil && validKind(HeaderFooterType(rs[q].Type)) ==> relResolves(rels, rs[q].ID, "http://schemas.openxmlformats.org/officeDocument/2006/relationships/header", hfFile("header", HeaderFooterType(rs[q].Type)))
+//@ spec ftrCanon(rs []*FooterReference, rels []Relationship) bool = forall q int :: {rs[q]} 0 <= q && q < len(rs) && rs[q] != nil && validKind(HeaderFooterType(rs[q].Type)) ==> relResolves(rels, rs[q].ID, "http://schemas.openxmlformats.org/officeDocument/2006/relationships/footer", hfFile("footer", HeaderFooterType(rs[q].Type)))
+
+// ---- what goes into the part: the paragraph handed to the serialiser ----------------------------------------
+
+// The formatted header/footer paragraph carries exactly the text, alignment and run formatting of the call:
+// one run with the text (none for an empty text), justification iff an alignment is given, and run properties
+// that mirror the TextFormat field by field (font family from FontFamily, else FontName; size in half points;
+// colour without a leading '#'; underline "single").
+//@ spec fmtFont(f *TextFormat) string = ite(f.FontFamily != "", f.FontFamily, f.FontName)
+//@ func createFormattedParagraph
+//@ props C11
+//@ modifies nothing
+//@ ensures fresh(result)
+//@ ensures alignment == "" ==> result.Properties == nil
+//@ ensures alignment != "" ==> fresh(result.Properties) && fresh(result.Properties.Justification) && result.Properties.Justification.Val == string(alignment)
+//@ ensures text == "" ==> len(result.Runs) == 0
+//@ ensures text != "" ==> len(result.Runs) == 1 && result.Runs[0].Text.Content == text && result.Runs[0].Text.Space == "preserve" && result.Runs[0].Drawing == nil && result.Runs[0].FieldChar == nil && result.Runs[0].InstrText == nil && result.Runs[0].Break == nil
+//@ ensures text != "" && format == nil ==> result.Runs[0].Properties == nil
+//@ ensures text != "" && format != nil ==> fresh(result.Runs[0].Properties)
+//@ ensures text != "" && format != nil ==> (result.Runs[0].Properties.Bold != nil) == format.Bold && (result.Runs[0].Properties.Italic != nil) == format.Italic && (result.Runs[0].Properties.Strike != nil) == format.Strike
+//@ ensures text != "" && format != nil ==> (result.Runs[0].Properties.Underline != nil) == format.Underline && (format.Underline ==> result.Runs[0].Properties.Underline.Val == "single")
+//@ ensures text != "" && format != nil ==> (result.Runs[0].Properties.FontFamily != nil) == (fmtFont(format) != "") && (fmtFont(format) != "" ==> result.Runs[0].Properties.FontFamily.ASCII == fmtFont(format) && result.Runs[0].Properties.FontFamily.HAnsi == fmtFont(format) && result.Runs[0].Properties.FontFamily.EastAsia == fmtFont(format) && result.Runs[0].Properties.FontFamily.CS == fmtFont(format))
+//@ ensures text != "" && format != nil ==> (result.Runs[0].Properties.Color != nil) == (format.FontColor != "") && (format.FontColor != "" ==> result.Runs[0].Properties.Color.Val == strings.TrimPrefix(format.FontColor, "#"))
+//@ ensures text != "" && format != nil ==> (result.Runs[0].Properties.FontSize != nil) == (format.FontSize > 0) && (format.FontSize > 0 ==> result.Runs[0].Properties.FontSize.Val == itoa(format.FontSize * 2))
+//@ ensures text != "" && format != nil ==> (result.Runs[0].Properties.Highlight != nil) == (format.Highlight != "") && (format.Highlight != "" ==> result.Runs[0].Properties.Highlight.Val == format.Highlight)
+
+// The page-number field: begin, the PAGE instruction, separate, the placeholder text, end, in this order.
+//@ func createPageNumberRuns
+//@ props C11
+//@ modifies nothing
+//@ ensures len(result) == 5 && freshArr(result)
+//@ ensures result[0].FieldChar != nil && result[0].FieldChar.FieldCharType == "begin" && result[0].InstrText == nil && result[0].Text.Content == ""
+//@ ensures result[1].InstrText != nil && result[1].InstrText.Space == "preserve" && result[1].InstrText.Content == " PAGE  \\* MERGEFORMAT " && result[1].FieldChar == nil && result[1].Text.Content == ""
+//@ ensures result[2].FieldChar != nil && result[2].FieldChar.FieldCharType == "separate" && result[2].InstrText == nil && result[2].Text.Content == ""
+//@ ensures result[3].Text.Content == "1" && result[3].FieldChar == nil && result[3].InstrText == nil
+//@ ensures result[4].FieldChar != nil && result[4].FieldChar.FieldCharType == "end" && result[4].InstrText == nil && result[4].Text.Content == ""
+
+// ---- GENERATED by /verif/tools/gen_hf_contracts.py: the six public calls (do not edit by hand) ----
+
+//@ func (*Document).AddHeader
+//@ props C11, C02
+//@ requires docParts(d) && elemsOK(d.Body.Elements)
+// failure (a kind that is not one of the three, or the serialiser reports an error): nothing has changed
+//@ ensures !validKind(headerType) ==> err != nil
+//@ ensures err != nil ==> unchangedHeap()
+//@ ensures err == nil ==> d.Body == old(d.Body) && d.parts == old(d.parts) && d.contentTypes == old(d.contentTypes) && d.documentRelationships == old(d.documentRelationships)
+// the part of the kind is (re)written, every other part stays
+//@ ensures err == nil ==> has(d.parts, "word/" + hfFile("header", headerType))
+//@ ensures err == nil ==> forall k string :: k != "word/" + hfFile("header", headerType) ==> has(d.parts, k) == old(has(d.parts, k)) && d.parts[k] == old(d.parts[k])
+// relationship of the part: found (list unchanged) or exactly one appended (fresh id, never "rId1"); earlier ones stay
+//@ ensures err == nil && !old(relNone(d.documentRelationships.Relationships, "http://schemas.openxmlformats.org/officeDocument/2006/relationships/header", hfFile("header", headerType))) ==> len(d.documentRelationships.Relationships) == old(len(d.documentRelationships.Relationships))
+//@ ensures err == nil && old(relNone(d.documentRelationships.Relationships, "http://schemas.openxmlformats.org/officeDocument/2006/relationships/header", hfFile("header", headerType))) ==> len(d.documentRelationships.Relationships) == old(len(d.documentRelationships.Relationships)) + 1 && d.documentRelationships.Relationships[old(len(d.documentRelationships.Relationships))].Type == "http://schemas.openxmlformats.org/officeDocument/2006/relationships/header" && d.documentRelationships.Relationships[old(len(d.documentRelationships.Relationships))].Target == hfFile("header", headerType) && d.documentRelationships.Relationships[old(len(d.documentRelationships.Relationships))].ID != "rId1"
+//@ ensures err == nil && old(relNone(d.documentRelationships.Relationships, "http://schemas.openxmlformats.org/officeDocument/2006/relationships/header", hfFile("header", headerType))) ==> forall j int :: 0 <= j && j < old(len(d.documentRelationships.Relationships)) ==> d.documentRelationships.Relationships[j].ID != d.documentRelationships.Relationships[old(len(d.documentRelationships.Relationships))].ID
+//@ ensures err == nil ==> forall j int :: 0 <= j && j < old(len(d.documentRelationships.Relationships)) ==> d.documentRelationships.Relationships[j] == old(d.documentRelationships.Relationships[j])
+//@ ensures err == nil && old(relIDsUnique(d.documentRelationships.Relationships)) ==> relIDsUnique(d.documentRelationships.Relationships)
+// content type of the part registered once; earlier overrides stay
+//@ ensures err == nil ==> ctHas(d.contentTypes.Overrides, "/" + ("word/" + hfFile("header", headerType)))
+//@ ensures err == nil && old(ctHas(d.contentTypes.Overrides, "/" + ("word/" + hfFile("header", headerType)))) ==> len(d.contentTypes.Overrides) == old(len(d.contentTypes.Overrides))
+//@ ensures err == nil && !old(ctHas(d.contentTypes.Overrides, "/" + ("word/" + hfFile("header", headerType)))) ==> len(d.contentTypes.Overrides) == old(len(d.contentTypes.Overrides)) + 1 && d.contentTypes.Overrides[old(len(d.contentTypes.Overrides))].PartName == "/" + ("word/" + hfFile("header", headerType)) && d.contentTypes.Overrides[old(len(d.contentTypes.Overrides))].ContentType == "application/vnd.openxmlformats-officedocument.wordprocessingml.header+xml"
+//@ ensures err == nil ==> forall j int :: 0 <= j && j < old(len(d.contentTypes.Overrides)) ==> d.contentTypes.Overrides[j] == old(d.contentTypes.Overrides[j])
+// what is serialised: one fresh Header with a single paragraph; the part ends with the bytes the serialiser returned for it
+//@ ensures err == nil ==> marshalCount() == old(marshalCount()) + 1 && typeIs(marshalAt(old(marshalCount())), "*Header") && fresh(marshalAt(old(marshalCount())).(*Header)) && len(marshalAt(old(marshalCount())).(*Header).Paragraphs) == 1 && fresh(marshalAt(old(marshalCount())).(*Header).Paragraphs[0])
+//@ ensures err == nil ==> len(d.parts["word/" + hfFile("header", headerType)]) >= len(marshalOut(old(marshalCount()))) && (forall i int :: 0 <= i && i < len(marshalOut(old(marshalCount()))) ==> d.parts["word/" + hfFile("header", headerType)][len(d.parts["word/" + hfFile("header", headerType)]) - len(marshalOut(old(marshalCount()))) + i] == marshalOut(old(marshalCount()))[i])
+//@ ensures err != nil ==> marshalCount() == old(marshalCount())
+//@ ensures err == nil ==> marshalAt(old(marshalCount())).(*Header).Paragraphs[0].Properties == nil && (text == "" ==> len(marshalAt(old(marshalCount())).(*Header).Paragraphs[0].Runs) == 0) && (text != "" ==> len(marshalAt(old(marshalCount())).(*Header).Paragraphs[0].Runs) == 1 && marshalAt(old(marshalCount())).(*Header).Paragraphs[0].Runs[0].Text.Content == text && marshalAt(old(marshalCount())).(*Header).Paragraphs[0].Runs[0].Text.Space == "preserve" && marshalAt(old(marshalCount())).(*Header).Paragraphs[0].Runs[0].Properties == nil && marshalAt(old(marshalCount())).(*Header).Paragraphs[0].Runs[0].FieldChar == nil && marshalAt(old(marshalCount())).(*Header).Paragraphs[0].Runs[0].InstrText == nil)
+// section settings found or created: never a second element, every other body element stays in place
+//@ ensures elemsOK(d.Body.Elements)
+//@ ensures err == nil && !old(noSect(d.Body.Elements)) ==> len(d.Body.Elements) == old(len(d.Body.Elements))
+//@ ensures err == nil && old(noSect(d.Body.Elements)) ==> len(d.Body.Elements) == old(len(d.Body.Elements)) + 1 && isSect(d.Body.Elements[old(len(d.Body.Elements))]) && fresh(d.Body.Elements[old(len(d.Body.Elements))].(*SectionProperties))
+//@ ensures err == nil ==> forall j int :: 0 <= j && j < old(len(d.Body.Elements)) ==> d.Body.Elements[j] == old(d.Body.Elements[j])
+// exactly one reference of the kind, and its id resolves to a relationship of the right type whose target is the kind's part:
+// (a) fresh section settings
+//@ ensures err == nil && old(noSect(d.Body.Elements)) ==> len(d.Body.Elements[old(len(d.Body.Elements))].(*SectionProperties).HeaderReferences) == 1 && len(d.Body.Elements[old(len(d.Body.Elements))].(*SectionProperties).FooterReferences) == 0 && d.Body.Elements[old(len(d.Body.Elements))].(*SectionProperties).TitlePage == nil && hdrOneAt(d.Body.Elements[old(len(d.Body.Elements))].(*SectionProperties).HeaderReferences, 0, string(headerType), d.Body.Elements[old(len(d.Body.Elements))].(*SectionProperties).HeaderReferences[0].ID) && relResolves(d.documentRelationships.Relationships, d.Body.Elements[old(len(d.Body.Elements))].(*SectionProperties).HeaderReferences[0].ID, "http://schemas.openxmlformats.org/officeDocument/2006/relationships/header", hfFile("header", headerType))
+// (b) existing section settings without a reference of the kind: one fresh reference appended, the earlier entries stay
+//@ ensures err == nil ==> forall s *SectionProperties :: {s.HeaderReferences} allocated(s) && old(isFirstSect(d.Body.Elements, s)) && old(hdrNone(s.HeaderReferences, string(headerType))) ==> len(s.HeaderReferences) == old(len(s.HeaderReferences)) + 1 && fresh(s.HeaderReferences[old(len(s.HeaderReferences))]) && (forall q int :: 0 <= q && q < old(len(s.HeaderReferences)) ==> s.HeaderReferences[q] == old(s.HeaderReferences[q])) && hdrOneAt(s.HeaderReferences, old(len(s.HeaderReferences)), string(headerType), s.HeaderReferences[old(len(s.HeaderReferences))].ID) && relResolves(d.documentRelationships.Relationships, s.HeaderReferences[old(len(s.HeaderReferences))].ID, "http://schemas.openxmlformats.org/officeDocument/2006/relationships/header", hfFile("header", headerType))
+// (c) existing reference of the kind (the first one, at k): same list of the same objects, that reference now resolves to the
+//     part's relationship, no other reference changed its id; if the kind was referenced at most once it still is, exactly once
+//@ ensures err == nil ==> forall s *SectionProperties, k int :: {s.HeaderReferences[k]} allocated(s) && old(isFirstSect(d.Body.Elements, s)) && old(hdrFirstAt(s.HeaderReferences, k, string(headerType))) ==> s.HeaderReferences[k] == old(s.HeaderReferences[k]) && len(s.HeaderReferences) == old(len(s.HeaderReferences)) && (forall q int :: 0 <= q && q < len(s.HeaderReferences) ==> s.HeaderReferences[q] == old(s.HeaderReferences[q]))
+//@ ensures err == nil ==> forall s *SectionProperties, k int :: {s.HeaderReferences[k]} allocated(s) && old(isFirstSect(d.Body.Elements, s)) && old(hdrFirstAt(s.HeaderReferences, k, string(headerType))) ==> s.HeaderReferences[k] == old(s.HeaderReferences[k]) && relResolves(d.documentRelationships.Relationships, s.HeaderReferences[k].ID, "http://schemas.openxmlformats.org/officeDocument/2006/relationships/header", hfFile("header", headerType))
+//@ ensures err == nil ==> forall s *SectionProperties, k int :: {s.HeaderReferences[k]} allocated(s) && old(isFirstSect(d.Body.Elements, s)) && old(hdrFirstAt(s.HeaderReferences, k, string(headerType))) ==> s.HeaderReferences[k] == old(s.HeaderReferences[k]) && (forall r *HeaderFooterReference :: allocated(r) && r != old(s.HeaderReferences[k]) ==> r.ID == old(r.ID))
+//@ ensures err == nil ==> forall s *SectionProperties, k int :: {s.HeaderReferences[k]} allocated(s) && old(isFirstSect(d.Body.Elements, s)) && old(hdrFirstAt(s.HeaderReferences, k, string(headerType))) && old(hdrAtMostOne(s.HeaderReferences, string(headerType))) ==> hdrOneAt(s.HeaderReferences, k, string(headerType), s.HeaderReferences[k].ID)
+//@ ensures err == nil && (old(noSect(d.Body.Elements)) || (forall s *SectionProperties :: allocated(s) && old(isFirstSect(d.Body.Elements, s)) ==> old(hdrNone(s.HeaderReferences, string(headerType))))) ==> forall r *HeaderFooterReference :: allocated(r) ==> r.ID == old(r.ID)
+// the other kinds, the footer references and every other section-properties object are untouched
+//@ ensures err == nil ==> forall s *SectionProperties :: {s.HeaderReferences} allocated(s) && old(isFirstSect(d.Body.Elements, s)) && string(headerType) != "default" && old(hdrAtMostOne(s.HeaderReferences, "default")) ==> hdrAtMostOne(s.HeaderReferences, "default")
+//@ ensures err == nil ==> forall s *SectionProperties :: {s.HeaderReferences} allocated(s) && old(isFirstSect(d.Body.Elements, s)) && string(headerType) != "first" && old(hdrAtMostOne(s.HeaderReferences, "first")) ==> hdrAtMostOne(s.HeaderReferences, "first")
+//@ ensures err == nil ==> forall s *SectionProperties :: {s.HeaderReferences} allocated(s) && old(isFirstSect(d.Body.Elements, s)) && string(headerType) != "even" && old(hdrAtMostOne(s.HeaderReferences, "even")) ==> hdrAtMostOne(s.HeaderReferences, "even")
+//@ ensures forall s *SectionProperties :: {s.HeaderReferences} allocated(s) && !old(isFirstSect(d.Body.Elements, s)) ==> s.HeaderReferences == old(s.HeaderReferences)
+//@ ensures forall s *SectionProperties :: {s.XmlnsR} allocated(s) && !old(isFirstSect(d.Body.Elements, s)) ==> s.XmlnsR == old(s.XmlnsR)
+//@ ensures forall s *SectionProperties :: {s.XmlnsR} allocated(s) && old(s.XmlnsR) != "" ==> s.XmlnsR == old(s.XmlnsR)
+// canonical references (the invariant behind "each kind has exactly one, current definition"): every reference of a valid kind
+// resolves, in the document relationship list, to a relationship of the right type whose target is the part of THAT kind
+//@ ensures err == nil && old(noSect(d.Body.Elements)) ==> hdrCanon(d.Body.Elements[old(len(d.Body.Elements))].(*SectionProperties).HeaderReferences, d.documentRelationships.Relationships) && ftrCanon(d.Body.Elements[old(len(d.Body.Elements))].(*SectionProperties).FooterReferences, d.documentRelationships.Relationships)
+//@ ensures err == nil ==> forall s *SectionProperties :: {s.HeaderReferences} allocated(s) && old(isFirstSect(d.Body.Elements, s)) && old(hdrNone(s.HeaderReferences, string(headerType))) && old(hdrCanon(s.HeaderReferences, d.documentRelationships.Relationships)) ==> hdrCanon(s.HeaderReferences, d.documentRelationships.Relationships)
+//@ ensures err == nil ==> forall s *SectionProperties, k int :: {s.HeaderReferences[k]} allocated(s) && old(isFirstSect(d.Body.Elements, s)) && old(hdrFirstAt(s.HeaderReferences, k, string(headerType))) && old(hdrCanon(s.HeaderReferences, d.documentRelationships.Relationships)) ==> s.HeaderReferences[k] == old(s.HeaderReferences[k]) && hdrCanon(s.HeaderReferences, d.documentRelationships.Relationships)
+//@ ensures err == nil ==> forall s *SectionProperties :: {s.FooterReferences} allocated(s) && old(isFirstSect(d.Body.Elements, s)) && old(ftrCanon(s.FooterReferences, d.documentRelationships.Relationships)) ==> ftrCanon(s.FooterReferences, d.documentRelationships.Relationships)
+//@ ensures unchangedExcept("map:string:[]byte", "Relationships.Relationships", "Relationship.*", "ContentTypes.Overrides", "Override.*", "Body.Elements", "cell:any", "SectionProperties.XmlnsR", "SectionProperties.HeaderReferences", "HeaderFooterReference.ID", "cell:*HeaderFooterReference")
+
+//@ func (*Document).AddFooter
+//@ props C11, C02
+//@ requires docParts(d) && elemsOK(d.Body.Elements)
+// failure (a kind that is not one of the three, or the serialiser reports an error): nothing has changed
+//@ ensures !validKind(footerType) ==> err != nil
+//@ ensures err != nil ==> unchangedHeap()
+//@ ensures err == nil ==> d.Body == old(d.Body) && d.parts == old(d.parts) && d.contentTypes == old(d.contentTypes) && d.documentRelationships == old(d.documentRelationships)
+// the part of the kind is (re)written, every other part stays
+//@ ensures err == nil ==> has(d.parts, "word/" + hfFile("footer", footerType))
+//@ ensures err == nil ==> forall k string :: k != "word/" + hfFile("footer", footerType) ==> has(d.parts, k) == old(has(d.parts, k)) && d.parts[k] == old(d.parts[k])
+// relationship of the part: found (list unchanged) or exactly one appended (fresh id, never "rId1"); earlier ones stay
+//@ ensures err == nil && !old(relNone(d.documentRelationships.Relationships, "http://schemas.openxmlformats.org/officeDocument/2006/relationships/footer", hfFile("footer", footerType))) ==> len(d.documentRelationships.Relationships) == old(len(d.documentRelationships.Relationships))
+//@ ensures err == nil && old(relNone(d.documentRelationships.Relationships, "http://schemas.openxmlformats.org/officeDocument/2006/relationships/footer", hfFile("footer", footerType))) ==> len(d.documentRelationships.Relationships) == old(len(d.documentRelationships.Relationships)) + 1 && d.documentRelationships.Relationships[old(len(d.documentRelationships.Relationships))].Type == "http://schemas.openxmlformats.org/officeDocument/2006/relationships/footer" && d.documentRelationships.Relationships[old(len(d.documentRelationships.Relationships))].Target == hfFile("footer", footerType) && d.documentRelationships.Relationships[old(len(d.documentRelationships.Relationships))].ID != "rId1"
+//@ ensures err == nil && old(relNone(d.documentRelationships.Relationships, "http://schemas.openxmlformats.org/officeDocument/2006/relationships/footer", hfFile("footer", footerType))) ==> forall j int :: 0 <= j && j < old(len(d.documentRelationships.Relationships)) ==> d.documentRelationships.Relationships[j].ID != d.documentRelationships.Relationships[old(len(d.documentRelationships.Relationships))].ID
+//@ ensures err == nil ==> forall j int :: 0 <= j && j < old(len(d.documentRelationships.Relationships)) ==> d.documentRelationships.Relationships[j] == old(d.documentRelationships.Relationships[j])
+//@ ensures err == nil && old(relIDsUnique(d.documentRelationships.Relationships)) ==> relIDsUnique(d.documentRelationships.Relationships)
+// content type of the part registered once; earlier overrides stay
+//@ ensures err == nil ==> ctHas(d.contentTypes.Overrides, "/" + ("word/" + hfFile("footer", footerType)))
+//@ ensures err == nil && old(ctHas(d.contentTypes.Overrides, "/" + ("word/" + hfFile("footer", footerType)))) ==> len(d.contentTypes.Overrides) == old(len(d.contentTypes.Overrides))
+//@ ensures err == nil && !old(ctHas(d.contentTypes.Overrides, "/" + ("word/" + hfFile("footer", footerType)))) ==> len(d.contentTypes.Overrides) == old(len(d.contentTypes.Overrides)) + 1 && d.contentTypes.Overrides[old(len(d.contentTypes.Overrides))].PartName == "/" + ("word/" + hfFile("footer", footerType)) && d.contentTypes.Overrides[old(len(d.contentTypes.Overrides))].ContentType == "application/vnd.openxmlformats-officedocument.wordprocessingml.footer+xml"
+//@ ensures err == nil ==> forall j int :: 0 <= j && j < old(len(d.contentTypes.Overrides)) ==> d.contentTypes.Overrides[j] == old(d.contentTypes.Overrides[j])
+// what is serialised: one fresh Footer with a single paragraph; the part ends with the bytes the serialiser returned for it
+//@ ensures err == nil ==> marshalCount() == old(marshalCount()) + 1 && typeIs(marshalAt(old(marshalCount())), "*Footer") && fresh(marshalAt(old(marshalCount())).(*Footer)) && len(marshalAt(old(marshalCount())).(*Footer).Paragraphs) == 1 && fresh(marshalAt(old(marshalCount())).(*Footer).Paragraphs[0])
+//@ ensures err == nil ==> len(d.parts["word/" + hfFile("footer", footerType)]) >= len(marshalOut(old(marshalCount()))) && (forall i int :: 0 <= i && i < len(marshalOut(old(marshalCount()))) ==> d.parts["word/" + hfFile("footer", footerType)][len(d.parts["word/" + hfFile("footer", footerType)]) - len(marshalOut(old(marshalCount()))) + i] == marshalOut(old(marshalCount()))[i])
+//@ ensures err != nil ==> marshalCount() == old(marshalCount())
+//@ ensures err == nil ==> marshalAt(old(marshalCount())).(*Footer).Paragraphs[0].Properties == nil && (text == "" ==> len(marshalAt(old(marshalCount())).(*Footer).Paragraphs[0].Runs) == 0) && (text != "" ==> len(marshalAt(old(marshalCount())).(*Footer).Paragraphs[0].Runs) == 1 && marshalAt(old(marshalCount())).(*Footer).Paragraphs[0].Runs[0].Text.Content == text && marshalAt(old(marshalCount())).(*Footer).Paragraphs[0].Runs[0].Text.Space == "preserve" && marshalAt(old(marshalCount())).(*Footer).Paragraphs[0].Runs[0].Properties == nil && marshalAt(old(marshalCount())).(*Footer).Paragraphs[0].Runs[0].FieldChar == nil && marshalAt(old(marshalCount())).(*Footer).Paragraphs[0].Runs[0].InstrText == nil)
+// section settings found or created: never a second element, every other body element stays in place
+//@ ensures elemsOK(d.Body.Elements)
+//@ ensures err == nil && !old(noSect(d.Body.Elements)) ==> len(d.Body.Elements) == old(len(d.Body.Elements))
+//@ ensures err == nil && old(noSect(d.Body.Elements)) ==> len(d.Body.Elements) == old(len(d.Body.Elements)) + 1 && isSect(d.Body.Elements[old(len(d.Body.Elements))]) && fresh(d.Body.Elements[old(len(d.Body.Elements))].(*SectionProperties))
+//@ ensures err == nil ==> forall j int :: 0 <= j && j < old(len(d.Body.Elements)) ==> d.Body.Elements[j] == old(d.Body.Elements[j])
+// exactly one reference of the kind, and its id resolves to a relationship of the right type whose target is the kind's part:
+// (a) fresh section settings
+//@ ensures err == nil && old(noSect(d.Body.Elements)) ==> len(d.Body.Elements[old(len(d.Body.Elements))].(*SectionProperties).FooterReferences) == 1 && len(d.Body.Elements[old(len(d.Body.Elements))].(*SectionProperties).HeaderReferences) == 0 && d.Body.Elements[old(len(d.Body.Elements))].(*SectionProperties).TitlePage == nil && ftrOneAt(d.Body.Elements[old(len(d.Body.Elements))].(*SectionProperties).FooterReferences, 0, string(footerType), d.Body.Elements[old(len(d.Body.Elements))].(*SectionProperties).FooterReferences[0].ID) && relResolves(d.documentRelationships.Relationships, d.Body.Elements[old(len(d.Body.Elements))].(*SectionProperties).FooterReferences[0].ID, "http://schemas.openxmlformats.org/officeDocument/2006/relationships/footer", hfFile("footer", footerType))
+// (b) existing section settings without a reference of the kind: one fresh reference appended, the earlier entries stay
+//@ ensures err == nil ==> forall s *SectionProperties :: {s.FooterReferences} allocated(s) && old(isFirstSect(d.Body.Elements, s)) && old(ftrNone(s.FooterReferences, string(footerType))) ==> len(s.FooterReferences) == old(len(s.FooterReferences)) + 1 && fresh(s.FooterReferences[old(len(s.FooterReferences))]) && (forall q int :: 0 <= q && q < old(len(s.FooterReferences)) ==> s.FooterReferences[q] == old(s.FooterReferences[q])) && ftrOneAt(s.FooterReferences, old(len(s.FooterReferences)), string(footerType), s.FooterReferences[old(len(s.FooterReferences))].ID) && relResolves(d.documentRelationships.Relationships, s.FooterReferences[old(len(s.FooterReferences))].ID, "http://schemas.openxmlformats.org/officeDocument/2006/relationships/footer", hfFile("footer", footerType))
+// (c) existing reference of the kind (the first one, at k): same list of the same objects, that reference now resolves to the
+//     part's relationship, no other reference changed its id; if the kind was referenced at most once it still is, exactly once
+//@ ensures err == nil ==> forall s *SectionProperties, k int :: {s.FooterReferences[k]} allocated(s) && old(isFirstSect(d.Body.Elements, s)) && old(ftrFirstAt(s.FooterReferences, k, string(footerType))) ==> s.FooterReferences[k] == old(s.FooterReferences[k]) && len(s.FooterReferences) == old(len(s.FooterReferences)) && (forall q int :: 0 <= q && q < len(s.FooterReferences) ==> s.FooterReferences[q] == old(s.FooterReferences[q]))
+//@ ensures err == nil ==> forall s *SectionProperties, k int :: {s.FooterReferences[k]} allocated(s) && old(isFirstSect(d.Body.Elements, s)) && old(ftrFirstAt(s.FooterReferences, k, string(footerType))) ==> s.FooterReferences[k] == old(s.FooterReferences[k]) && relResolves(d.documentRelationships.Relationships, s.FooterReferences[k].ID, "http://schemas.openxmlformats.org/officeDocument/2006/relationships/footer", hfFile("footer", footerType))
+//@ ensures err == nil ==> forall s *SectionProperties, k int :: {s.FooterReferences[k]} allocated(s) && old(isFirstSect(d.Body.Elements, s)) && old(ftrFirstAt(s.FooterReferences, k, string(footerType))) ==> s.FooterReferences[k] == old(s.FooterReferences[k]) && (forall r *FooterReference :: allocated(r) && r != old(s.FooterReferences[k]) ==> r.ID == old(r.ID))
+//@ ensures err == nil ==> forall s *SectionProperties, k int :: {s.FooterReferences[k]} allocated(s) && old(isFirstSect(d.Body.Elements, s)) && old(ftrFirstAt(s.FooterReferences, k, string(footerType))) && old(ftrAtMostOne(s.FooterReferences, string(footerType))) ==> ftrOneAt(s.FooterReferences, k, string(footerType), s.FooterReferences[k].ID)
+//@ ensures err == nil && (old(noSect(d.Body.Elements)) || (forall s *SectionProperties :: allocated(s) && old(isFirstSect(d.Body.Elements, s)) ==> old(ftrNone(s.FooterReferences, string(footerType))))) ==> forall r *FooterReference :: allocated(r) ==> r.ID == old(r.ID)
+// the other kinds, the header references and every other section-properties object are untouched
+//@ ensures err == nil ==> forall s *SectionProperties :: {s.FooterReferences} allocated(s) && old(isFirstSect(d.Body.Elements, s)) && string(footerType) != "default" && old(ftrAtMostOne(s.FooterReferences, "default")) ==> ftrAtMostOne(s.FooterReferences, "default")
+//@ ensures err == nil ==> forall s *SectionProperties :: {s.FooterReferences} allocated(s) && old(isFirstSect(d.Body.Elements, s)) && string(footerType) != "first" && old(ftrAtMostOne(s.FooterReferences, "first")) ==> ftrAtMostOne(s.FooterReferences, "first")
+//@ ensures err == nil ==> forall s *SectionProperties :: {s.FooterReferences} allocated(s) && old(isFirstSect(d.Body.Elements, s)) && string(footerType) != "even" && old(ftrAtMostOne(s.FooterReferences, "even")) ==> ftrAtMostOne(s.FooterReferences, "even")
+//@ ensures forall s *SectionProperties :: {s.FooterReferences} allocated(s) && !old(isFirstSect(d.Body.Elements, s)) ==> s.FooterReferences == old(s.FooterReferences)
+//@ ensures forall s *SectionProperties :: {s.XmlnsR} allocated(s) && !old(isFirstSect(d.Body.Elements, s)) ==> s.XmlnsR == old(s.XmlnsR)
+//@ ensures forall s *SectionProperties :: {s.XmlnsR} allocated(s) && old(s.XmlnsR) != "" ==> s.XmlnsR == old(s.XmlnsR)
+// canonical references (the invariant behind "each kind has exactly one, current definition"): every reference of a valid kind
+// resolves, in the document relationship list, to a relationship of the right type whose target is the part of THAT kind
+//@ ensures err == nil && old(noSect(d.Body.Elements)) ==> hdrCanon(d.Body.Elements[old(len(d.Body.Elements))].(*SectionProperties).HeaderReferences, d.documentRelationships.Relationships) && ftrCanon(d.Body.Elements[old(len(d.Body.Elements))].(*SectionProperties).FooterReferences, d.documentRelationships.Relationships)
+//@ ensures err == nil ==> forall s *SectionProperties :: {s.FooterReferences} allocated(s) && old(isFirstSect(d.Body.Elements, s)) && old(ftrNone(s.FooterReferences, string(footerType))) && old(ftrCanon(s.FooterReferences, d.documentRelationships.Relationships)) ==> ftrCanon(s.FooterReferences, d.documentRelationships.Relationships)
+//@ ensures err == nil ==> forall s *SectionProperties, k int :: {s.FooterReferences[k]} allocated(s) && old(isFirstSect(d.Body.Elements, s)) && old(ftrFirstAt(s.FooterReferences, k, string(footerType))) && old(ftrCanon(s.FooterReferences, d.documentRelationships.Relationships)) ==> s.FooterReferences[k] == old(s.FooterReferences[k]) && ftrCanon(s.FooterReferences, d.documentRelationships.Relationships)
+//@ ensures err == nil ==> forall s *SectionProperties :: {s.HeaderReferences} allocated(s) && old(isFirstSect(d.Body.Elements, s)) && old(hdrCanon(s.HeaderReferences, d.documentRelationships.Relationships)) ==> hdrCanon(s.HeaderReferences, d.documentRelationships.Relationships)
+//@ ensures unchangedExcept("map:string:[]byte", "Relationships.Relationships", "Relationship.*", "ContentTypes.Overrides", "Override.*", "Body.Elements", "cell:any", "SectionProperties.XmlnsR", "SectionProperties.FooterReferences", "FooterReference.ID", "cell:*FooterReference")
+
+//@ func (*Document).AddHeaderWithPageNumber
+//@ props C11, C02
+//@ requires docParts(d) && elemsOK(d.Body.Elements)
+// failure (a kind that is not one of the three, or the serialiser reports an error): nothing has changed
+//@ ensures !validKind(headerType) ==> err != nil
+//@ ensures err != nil ==> unchangedHeap()
+//@ ensures err == nil ==> d.Body == old(d.Body) && d.parts == old(d.parts) && d.contentTypes == old(d.contentTypes) && d.documentRelationships == old(d.documentRelationships)
+// the part of the kind is (re)written, every other part stays
+//@ ensures err == nil ==> has(d.parts, "word/" + hfFile("header", headerType))
+//@ ensures err == nil ==> forall k string :: k != "word/" + hfFile("header", headerType) ==> has(d.parts, k) == old(has(d.parts, k)) && d.parts[k] == old(d.parts[k])
+// relationship of the part: found (list unchanged) or exactly one appended (fresh id, never "rId1"); earlier ones stay
+//@ ensures err == nil && !old(relNone(d.documentRelationships.Relationships, "http://schemas.openxmlformats.org/officeDocument/2006/relationships/header", hfFile("header", headerType))) ==> len(d.documentRelationships.Relationships) == old(len(d.documentRelationships.Relationships))
+//@ ensures err == nil && old(relNone(d.documentRelationships.Relationships, "http://schemas.openxmlformats.org/officeDocument/2006/relationships/header", hfFile("header", headerType))) ==> len(d.documentRelationships.Relationships) == old(len(d.documentRelationships.Relationships)) + 1 && d.documentRelationships.Relationships[old(len(d.documentRelationships.Relationships))].Type == "http://schemas.openxmlformats.org/officeDocument/2006/relationships/header" && d.documentRelationships.Relationships[old(len(d.documentRelationships.Relationships))].Target == hfFile("header", headerType) && d.documentRelationships.Relationships[old(len(d.documentRelationships.Relationships))].ID != "rId1"
+//@ ensures err == nil && old(relNone(d.documentRelationships.Relationships, "http://schemas.openxmlformats.org/officeDocument/2006/relationships/header", hfFile("header", headerType))) ==> forall j int :: 0 <= j && j < old(len(d.documentRelationships.Relationships)) ==> d.documentRelationships.Relationships[j].ID != d.documentRelationships.Relationships[old(len(d.documentRelationships.Relationships))].ID
+//@ ensures err == nil ==> forall j int :: 0 <= j && j < old(len(d.documentRelationships.Relationships)) ==> d.documentRelationships.Relationships[j] == old(d.documentRelationships.Relationships[j])
+//@ ensures err == nil && old(relIDsUnique(d.documentRelationships.Relationships)) ==> relIDsUnique(d.documentRelationships.Relationships)
+// content type of the part registered once; earlier overrides stay
+//@ ensures err == nil ==> ctHas(d.contentTypes.Overrides, "/" + ("word/" + hfFile("header", headerType)))
+//@ ensures err == nil && old(ctHas(d.contentTypes.Overrides, "/" + ("word/" + hfFile("header", headerType)))) ==> len(d.contentTypes.Overrides) == old(len(d.contentTypes.Overrides))
+//@ ensures err == nil && !old(ctHas(d.contentTypes.Overrides, "/" + ("word/" + hfFile("header", headerType)))) ==> len(d.contentTypes.Overrides) == old(len(d.contentTypes.Overrides)) + 1 && d.contentTypes.Overrides[old(len(d.contentTypes.Overrides))].PartName == "/" + ("word/" + hfFile("header", headerType)) && d.contentTypes.Overrides[old(len(d.contentTypes.Overrides))].ContentType == "application/vnd.openxmlformats-officedocument.wordprocessingml.header+xml"
+//@ ensures err == nil ==> forall j int :: 0 <= j && j < old(len(d.contentTypes.Overrides)) ==> d.contentTypes.Overrides[j] == old(d.contentTypes.Overrides[j])
+// what is serialised: one fresh Header with a single paragraph; the part ends with the bytes the serialiser returned for it
+//@ ensures err == nil ==> marshalCount() == old(marshalCount()) + 1 && typeIs(marshalAt(old(marshalCount())), "*Header") && fresh(marshalAt(old(marshalCount())).(*Header)) && len(marshalAt(old(marshalCount())).(*Header).Paragraphs) == 1 && fresh(marshalAt(old(marshalCount())).(*Header).Paragraphs[0])
+//@ ensures err == nil ==> len(d.parts["word/" + hfFile("header", headerType)]) >= len(marshalOut(old(marshalCount()))) && (forall i int :: 0 <= i && i < len(marshalOut(old(marshalCount()))) ==> d.parts["word/" + hfFile("header", headerType)][len(d.parts["word/" + hfFile("header", headerType)]) - len(marshalOut(old(marshalCount()))) + i] == marshalOut(old(marshalCount()))[i])
+//@ ensures err != nil ==> marshalCount() == old(marshalCount())
+// runs: [text]? then, when a page number is requested, " 第 ", the PAGE field (begin, instruction, separate, placeholder, end), " 页"
+//@ ensures err == nil ==> marshalAt(old(marshalCount())).(*Header).Paragraphs[0].Properties == nil && len(marshalAt(old(marshalCount())).(*Header).Paragraphs[0].Runs) == ite(text != "", 1, 0) + ite(showPageNum, 7, 0)
+//@ ensures err == nil && text != "" ==> marshalAt(old(marshalCount())).(*Header).Paragraphs[0].Runs[0].Text.Content == text && marshalAt(old(marshalCount())).(*Header).Paragraphs[0].Runs[0].Text.Space == "preserve" && marshalAt(old(marshalCount())).(*Header).Paragraphs[0].Runs[0].FieldChar == nil && marshalAt(old(marshalCount())).(*Header).Paragraphs[0].Runs[0].InstrText == nil
+//@ ensures err == nil && showPageNum && text != "" ==> marshalAt(old(marshalCount())).(*Header).Paragraphs[0].Runs[1].Text.Content == " 第 " && marshalAt(old(marshalCount())).(*Header).Paragraphs[0].Runs[1].FieldChar == nil && marshalAt(old(marshalCount())).(*Header).Paragraphs[0].Runs[1].InstrText == nil
+//@ ensures err == nil && showPageNum && text != "" ==> marshalAt(old(marshalCount())).(*Header).Paragraphs[0].Runs[2].FieldChar != nil && marshalAt(old(marshalCount())).(*Header).Paragraphs[0].Runs[2].FieldChar.FieldCharType == "begin" && marshalAt(old(marshalCount())).(*Header).Paragraphs[0].Runs[2].InstrText == nil
+//@ ensures err == nil && showPageNum && text != "" ==> marshalAt(old(marshalCount())).(*Header).Paragraphs[0].Runs[3].InstrText != nil && marshalAt(old(marshalCount())).(*Header).Paragraphs[0].Runs[3].InstrText.Content == " PAGE  \\* MERGEFORMAT " && marshalAt(old(marshalCount())).(*Header).Paragraphs[0].Runs[3].FieldChar == nil
+//@ ensures err == nil && showPageNum && text != "" ==> marshalAt(old(marshalCount())).(*Header).Paragraphs[0].Runs[4].FieldChar != nil && marshalAt(old(marshalCount())).(*Header).Paragraphs[0].Runs[4].FieldChar.FieldCharType == "separate" && marshalAt(old(marshalCount())).(*Header).Paragraphs[0].Runs[4].InstrText == nil
+//@ ensures err == nil && showPageNum && text != "" ==> marshalAt(old(marshalCount())).(*Header).Paragraphs[0].Runs[5].Text.Content == "1" && marshalAt(old(marshalCount())).(*Header).Paragraphs[0].Runs[5].FieldChar == nil && marshalAt(old(marshalCount())).(*Header).Paragraphs[0].Runs[5].InstrText == nil
+//@ ensures err == nil && showPageNum && text != "" ==> marshalAt(old(marshalCount())).(*Header).Paragraphs[0].Runs[6].FieldChar != nil && marshalAt(old(marshalCount())).(*Header).Paragraphs[0].Runs[6].FieldChar.FieldCharType == "end" && marshalAt(old(marshalCount())).(*Header).Paragraphs[0].Runs[6].InstrText == nil
+//@ ensures err == nil && showPageNum && text != "" ==> marshalAt(old(marshalCount())).(*Header).Paragraphs[0].Runs[7].Text.Content == " 页" && marshalAt(old(marshalCount())).(*Header).Paragraphs[0].Runs[7].FieldChar == nil && marshalAt(old(marshalCount())).(*Header).Paragraphs[0].Runs[7].InstrText == nil
+//@ ensures err == nil && showPageNum && text == "" ==> marshalAt(old(marshalCount())).(*Header).Paragraphs[0].Runs[0].Text.Content == " 第 " && marshalAt(old(marshalCount())).(*Header).Paragraphs[0].Runs[0].FieldChar == nil && marshalAt(old(marshalCount())).(*Header).Paragraphs[0].Runs[0].InstrText == nil
+//@ ensures err == nil && showPageNum && text == "" ==> marshalAt(old(marshalCount())).(*Header).Paragraphs[0].Runs[1].FieldChar != nil && marshalAt(old(marshalCount())).(*Header).Paragraphs[0].Runs[1].FieldChar.FieldCharType == "begin" && marshalAt(old(marshalCount())).(*Header).Paragraphs[0].Runs[1].InstrText == nil
+//@ ensures err == nil && showPageNum && text == "" ==> marshalAt(old(marshalCount())).(*Header).Paragraphs[0].Runs[2].InstrText != nil && marshalAt(old(marshalCount())).(*Header).Paragraphs[0].Runs[2].InstrText.Content == " PAGE  \\* MERGEFORMAT " && marshalAt(old(marshalCount())).(*Header).Paragraphs[0].Runs[2].FieldChar == nil
+//@ ensures err == nil && showPageNum && text == "" ==> marshalAt(old(marshalCount())).(*Header).Paragraphs[0].Runs[3].FieldChar != nil && marshalAt(old(marshalCount())).(*Header).Paragraphs[0].Runs[3].FieldChar.FieldCharType == "separate" && marshalAt(old(marshalCount())).(*Header).Paragraphs[0].Runs[3].InstrText == nil
+//@ ensures err == nil && showPageNum && text == "" ==> marshalAt(old(marshalCount())).(*Header).Paragraphs[0].Runs[4].Text.Content == "1" && marshalAt(old(marshalCount())).(*Header).Paragraphs[0].Runs[4].FieldChar == nil && marshalAt(old(marshalCount())).(*Header).Paragraphs[0].Runs[4].InstrText == nil
+//@ ensures err == nil && showPageNum && text == "" ==> marshalAt(old(marshalCount())).(*Header).Paragraphs[0].Runs[5].FieldChar != nil && marshalAt(old(marshalCount())).(*Header).Paragraphs[0].Runs[5].FieldChar.FieldCharType == "end" && marshalAt(old(marshalCount())).(*Header).Paragraphs[0].Runs[5].InstrText == nil
+//@ ensures err == nil && showPageNum && text == "" ==> marshalAt(old(marshalCount())).(*Header).Paragraphs[0].Runs[6].Text.Content == " 页" && marshalAt(old(marshalCount())).(*Header).Paragraphs[0].Runs[6].FieldChar == nil && marshalAt(old(marshalCount())).(*Header).Paragraphs[0].Runs[6].InstrText == nil
+// section settings found or created: never a second element, every other body element stays in place
+//@ ensures elemsOK(d.Body.Elements)
+//@ ensures err == nil && !old(noSect(d.Body.Elements)) ==> len(d.Body.Elements) == old(len(d.Body.Elements))
+//@ ensures err == nil && old(noSect(d.Body.Elements)) ==> len(d.Body.Elements) == old(len(d.Body.Elements)) + 1 && isSect(d.Body.Elements[old(len(d.Body.Elements))]) && fresh(d.Body.Elements[old(len(d.Body.Elements))].(*SectionProperties))
+//@ ensures err == nil ==> forall j int :: 0 <= j && j < old(len(d.Body.Elements)) ==> d.Body.Elements[j] == old(d.Body.Elements[j])
+// exactly one reference of the kind, and its id resolves to a relationship of the right type whose target is the kind's part:
+// (a) fresh section settings
+//@ ensures err == nil && old(noSect(d.Body.Elements)) ==> len(d.Body.Elements[old(len(d.Body.Elements))].(*SectionProperties).HeaderReferences) == 1 && len(d.Body.Elements[old(len(d.Body.Elements))].(*SectionProperties).FooterReferences) == 0 && d.Body.Elements[old(len(d.Body.Elements))].(*SectionProperties).TitlePage == nil && hdrOneAt(d.Body.Elements[old(len(d.Body.Elements))].(*SectionProperties).HeaderReferences, 0, string(headerType), d.Body.Elements[old(len(d.Body.Elements))].(*SectionProperties).HeaderReferences[0].ID) && relResolves(d.documentRelationships.Relationships, d.Body.Elements[old(len(d.Body.Elements))].(*SectionProperties).HeaderReferences[0].ID, "http://schemas.openxmlformats.org/officeDocument/2006/relationships/header", hfFile("header", headerType))
+// (b) existing section settings without a reference of the kind: one fresh reference appended, the earlier entries stay
+//@ ensures err == nil ==> forall s *SectionProperties :: {s.HeaderReferences} allocated(s) && old(isFirstSect(d.Body.Elements, s)) && old(hdrNone(s.HeaderReferences, string(headerType))) ==> len(s.HeaderReferences) == old(len(s.HeaderReferences)) + 1 && fresh(s.HeaderReferences[old(len(s.HeaderReferences))]) && (forall q int :: 0 <= q && q < old(len(s.HeaderReferences)) ==> s.HeaderReferences[q] == old(s.HeaderReferences[q])) && hdrOneAt(s.HeaderReferences, old(len(s.HeaderReferences)), string(headerType), s.HeaderReferences[old(len(s.HeaderReferences))].ID) && relResolves(d.documentRelationships.Relationships, s.HeaderReferences[old(len(s.HeaderReferences))].ID, "http://schemas.openxmlformats.org/officeDocument/2006/relationships/header", hfFile("header", headerType))
+// (c) existing reference of the kind (the first one, at k): same list of the same objects, that reference now resolves to the
+//     part's relationship, no other reference changed its id; if the kind was referenced at most once it still is, exactly once
+//@ ensures err == nil ==> forall s *SectionProperties, k int :: {s.HeaderReferences[k]} allocated(s) && old(isFirstSect(d.Body.Elements, s)) && old(hdrFirstAt(s.HeaderReferences, k, string(headerType))) ==> s.HeaderReferences[k] == old(s.HeaderReferences[k]) && len(s.HeaderReferences) == old(len(s.HeaderReferences)) && (forall q int :: 0 <= q && q < len(s.HeaderReferences) ==> s.HeaderReferences[q] == old(s.HeaderReferences[q]))
+//@ ensures err == nil ==> forall s *SectionProperties, k int :: {s.HeaderReferences[k]} allocated(s) && old(isFirstSect(d.Body.Elements, s)) && old(hdrFirstAt(s.HeaderReferences, k, string(headerType))) ==> s.HeaderReferences[k] == old(s.HeaderReferences[k]) && relResolves(d.documentRelationships.Relationships, s.HeaderReferences[k].ID, "http://schemas.openxmlformats.org/officeDocument/2006/relationships/header", hfFile("header", headerType))
+//@ ensures err == nil ==> forall s *SectionProperties, k int :: {s.HeaderReferences[k]} allocated(s) && old(isFirstSect(d.Body.Elements, s)) && old(hdrFirstAt(s.HeaderReferences, k, string(headerType))) ==> s.HeaderReferences[k] == old(s.HeaderReferences[k]) && (forall r *HeaderFooterReference :: allocated(r) && r != old(s.HeaderReferences[k]) ==> r.ID == old(r.ID))
+//@ ensures err == nil ==> forall s *SectionProperties, k int :: {s.HeaderReferences[k]} allocated(s) && old(isFirstSect(d.Body.Elements, s)) && old(hdrFirstAt(s.HeaderReferences, k, string(headerType))) && old(hdrAtMostOne(s.HeaderReferences, string(headerType))) ==> hdrOneAt(s.HeaderReferences, k, string(headerType), s.HeaderReferences[k].ID)
+//@ ensures err == nil && (old(noSect(d.Body.Elements)) || (forall s *SectionProperties :: allocated(s) && old(isFirstSect(d.Body.Elements, s)) ==> old(hdrNone(s.HeaderReferences, string(headerType))))) ==> forall r *HeaderFooterReference :: allocated(r) ==> r.ID == old(r.ID)
+// the other kinds, the footer references and every other section-properties object are untouched
+//@ ensures err == nil ==> forall s *SectionProperties :: {s.HeaderReferences} allocated(s) && old(isFirstSect(d.Body.Elements, s)) && string(headerType) != "default" && old(hdrAtMostOne(s.HeaderReferences, "default")) ==> hdrAtMostOne(s.HeaderReferences, "default")
+//@ ensures err == nil ==> forall s *SectionProperties :: {s.HeaderReferences} allocated(s) && old(isFirstSect(d.Body.Elements, s)) && string(headerType) != "first" && old(hdrAtMostOne(s.HeaderReferences, "first")) ==> hdrAtMostOne(s.HeaderReferences, "first")
+//@ ensures err == nil ==> forall s *SectionProperties :: {s.HeaderReferences} allocated(s) && old(isFirstSect(d.Body.Elements, s)) && string(headerType) != "even" && old(hdrAtMostOne(s.HeaderReferences, "even")) ==> hdrAtMostOne(s.HeaderReferences, "even")
+//@ ensures forall s *SectionProperties :: {s.HeaderReferences} allocated(s) && !old(isFirstSect(d.Body.Elements, s)) ==> s.HeaderReferences == old(s.HeaderReferences)
+//@ ensures forall s *SectionProperties :: {s.XmlnsR} allocated(s) && !old(isFirstSect(d.Body.Elements, s)) ==> s.XmlnsR == old(s.XmlnsR)
+//@ ensures forall s *SectionProperties :: {s.XmlnsR} allocated(s) && old(s.XmlnsR) != "" ==> s.XmlnsR == old(s.XmlnsR)
+// canonical references (the invariant behind "each kind has exactly one, current definition"): every reference of a valid kind
+// resolves, in the document relationship list, to a relationship of the right type whose target is the part of THAT kind
+//@ ensures err == nil && old(noSect(d.Body.Elements)) ==> hdrCanon(d.Body.Elements[old(len(d.Body.Elements))].(*SectionProperties).HeaderReferences, d.documentRelationships.Relationships) && ftrCanon(d.Body.Elements[old(len(d.Body.Elements))].(*SectionProperties).FooterReferences, d.documentRelationships.Relationships)
+//@ ensures err == nil ==> forall s *SectionProperties :: {s.HeaderReferences} allocated(s) && old(isFirstSect(d.Body.Elements, s)) && old(hdrNone(s.HeaderReferences, string(headerType))) && old(hdrCanon(s.HeaderReferences, d.documentRelationships.Relationships)) ==> hdrCanon(s.HeaderReferences, d.documentRelationships.Relationships)
+//@ ensures err == nil ==> forall s *SectionProperties, k int :: {s.HeaderReferences[k]} allocated(s) && old(isFirstSect(d.Body.Elements, s)) && old(hdrFirstAt(s.HeaderReferences, k, string(headerType))) && old(hdrCanon(s.HeaderReferences, d.documentRelationships.Relationships)) ==> s.HeaderReferences[k] == old(s.HeaderReferences[k]) && hdrCanon(s.HeaderReferences, d.documentRelationships.Relationships)
+//@ ensures err == nil ==> forall s *SectionProperties :: {s.FooterReferences} allocated(s) && old(isFirstSect(d.Body.Elements, s)) && old(ftrCanon(s.FooterReferences, d.documentRelationships.Relationships)) ==> ftrCanon(s.FooterReferences, d.documentRelationships.Relationships)
+//@ ensures unchangedExcept("map:string:[]byte", "Relationships.Relationships", "Relationship.*", "ContentTypes.Overrides", "Override.*", "Body.Elements", "cell:any", "SectionProperties.XmlnsR", "SectionProperties.HeaderReferences", "HeaderFooterReference.ID", "cell:*HeaderFooterReference")
+
+//@ func (*Document).AddFooterWithPageNumber
+//@ props C11, C02
+//@ requires docParts(d) && elemsOK(d.Body.Elements)
+// failure (a kind that is not one of the three, or the serialiser reports an error): nothing has changed
+//@ ensures !validKind(footerType) ==> err != nil
+//@ ensures err != nil ==> unchangedHeap()
+//@ ensures err == nil ==> d.Body == old(d.Body) && d.parts == old(d.parts) && d.contentTypes == old(d.contentTypes) && d.documentRelationships == old(d.documentRelationships)
+// the part of the kind is (re)written, every other part stays
+//@ ensures err == nil ==> has(d.parts, "word/" + hfFile("footer", footerType))
+//@ ensures err == nil ==> forall k string :: k != "word/" + hfFile("footer", footerType) ==> has(d.parts, k) == old(has(d.parts, k)) && d.parts[k] == old(d.parts[k])
+// relationship of the part: found (list unchanged) or exactly one appended (fresh id, never "rId1"); earlier ones stay
+//@ ensures err == nil && !old(relNone(d.documentRelationships.Relationships, "http://schemas.openxmlformats.org/officeDocument/2006/relationships/footer", hfFile("footer", footerType))) ==> len(d.documentRelationships.Relationships) == old(len(d.documentRelationships.Relationships))
+//@ ensures err == nil && old(relNone(d.documentRelationships.Relationships, "http://schemas.openxmlformats.org/officeDocument/2006/relationships/footer", hfFile("footer", footerType))) ==> len(d.documentRelationships.Relationships) == old(len(d.documentRelationships.Relationships)) + 1 && d.documentRelationships.Relationships[old(len(d.documentRelationships.Relationships))].Type == "http://schemas.openxmlformats.org/officeDocument/2006/relationships/footer" && d.documentRelationships.Relationships[old(len(d.documentRelationships.Relationships))].Target == hfFile("footer", footerType) && d.documentRelationships.Relationships[old(len(d.documentRelationships.Relationships))].ID != "rId1"
+//@ ensures err == nil && old(relNone(d.documentRelationships.Relationships, "http://schemas.openxmlformats.org/officeDocument/2006/relationships/footer", hfFile("footer", footerType))) ==> forall j int :: 0 <= j && j < old(len(d.documentRelationships.Relationships)) ==> d.documentRelationships.Relationships[j].ID != d.documentRelationships.Relationships[old(len(d.documentRelationships.Relationships))].ID
+//@ ensures err == nil ==> forall j int :: 0 <= j && j < old(len(d.documentRelationships.Relationships)) ==> d.documentRelationships.Relationships[j] == old(d.documentRelationships.Relationships[j])
+//@ ensures err == nil && old(relIDsUnique(d.documentRelationships.Relationships)) ==> relIDsUnique(d.documentRelationships.Relationships)
+// content type of the part registered once; earlier overrides stay
+//@ ensures err == nil ==> ctHas(d.contentTypes.Overrides, "/" + ("word/" + hfFile("footer", footerType)))
+//@ ensures err == nil && old(ctHas(d.contentTypes.Overrides, "/" + ("word/" + hfFile("footer", footerType)))) ==> len(d.contentTypes.Overrides) == old(len(d.contentTypes.Overrides))
+//@ ensures err == nil && !old(ctHas(d.contentTypes.Overrides, "/" + ("word/" + hfFile("footer", footerType)))) ==> len(d.contentTypes.Overrides) == old(len(d.contentTypes.Overrides)) + 1 && d.contentTypes.Overrides[old(len(d.contentTypes.Overrides))].PartName == "/" + ("word/" + hfFile("footer", footerType)) && d.contentTypes.Overrides[old(len(d.contentTypes.Overrides))].ContentType == "application/vnd.openxmlformats-officedocument.wordprocessingml.footer+xml"
+//@ ensures err == nil ==> forall j int :: 0 <= j && j < old(len(d.contentTypes.Overrides)) ==> d.contentTypes.Overrides[j] == old(d.contentTypes.Overrides[j])
+// what is serialised: one fresh Footer with a single paragraph; the part ends with the bytes the serialiser returned for it
+//@ ensures err == nil ==> marshalCount() == old(marshalCount()) + 1 && typeIs(marshalAt(old(marshalCount())), "*Footer") && fresh(marshalAt(old(marshalCount())).(*Footer)) && len(marshalAt(old(marshalCount())).(*Footer).Paragraphs) == 1 && fresh(marshalAt(old(marshalCount())).(*Footer).Paragraphs[0])
+//@ ensures err == nil ==> len(d.parts["word/" + hfFile("footer", footerType)]) >= len(marshalOut(old(marshalCount()))) && (forall i int :: 0 <= i && i < len(marshalOut(old(marshalCount()))) ==> d.parts["word/" + hfFile("footer", footerType)][len(d.parts["word/" + hfFile("footer", footerType)]) - len(marshalOut(old(marshalCount()))) + i] == marshalOut(old(marshalCount()))[i])
+//@ ensures err != nil ==> marshalCount() == old(marshalCount())
+// runs: [text]? then, when a page number is requested, " 第 ", the PAGE field (begin, instruction, separate, placeholder, end), " 页"
+//@ ensures err == nil ==> marshalAt(old(marshalCount())).(*Footer).Paragraphs[0].Properties == nil && len(marshalAt(old(marshalCount())).(*Footer).Paragraphs[0].Runs) == ite(text != "", 1, 0) + ite(showPageNum, 7, 0)
+//@ ensures err == nil && text != "" ==> marshalAt(old(marshalCount())).(*Footer).Paragraphs[0].Runs[0].Text.Content == text && marshalAt(old(marshalCount())).(*Footer).Paragraphs[0].Runs[0].Text.Space == "preserve" && marshalAt(old(marshalCount())).(*Footer).Paragraphs[0].Runs[0].FieldChar == nil && marshalAt(old(marshalCount())).(*Footer).Paragraphs[0].Runs[0].InstrText == nil
+//@ ensures err == nil && showPageNum && text != "" ==> marshalAt(old(marshalCount())).(*Footer).Paragraphs[0].Runs[1].Text.Content == " 第 " && marshalAt(old(marshalCount())).(*Footer).Paragraphs[0].Runs[1].FieldChar == nil && marshalAt(old(marshalCount())).(*Footer).Paragraphs[0].Runs[1].InstrText == nil
+//@ ensures err == nil && showPageNum && text != "" ==> marshalAt(old(marshalCount())).(*Footer).Paragraphs[0].Runs[2].FieldChar != nil && marshalAt(old(marshalCount())).(*Footer).Paragraphs[0].Runs[2].FieldChar.FieldCharType == "begin" && marshalAt(old(marshalCount())).(*Footer).Paragraphs[0].Runs[2].InstrText == nil
+//@ ensures err == nil && showPageNum && text != "" ==> marshalAt(old(marshalCount())).(*Footer).Paragraphs[0].Runs[3].InstrText != nil && marshalAt(old(marshalCount())).(*Footer).Paragraphs[0].Runs[3].InstrText.Content == " PAGE  \\* MERGEFORMAT " && marshalAt(old(marshalCount())).(*Footer).Paragraphs[0].Runs[3].FieldChar == nil
+//@ ensures err == nil && showPageNum && text != "" ==> marshalAt(old(marshalCount())).(*Footer).Paragraphs[0].Runs[4].FieldChar != nil && marshalAt(old(marshalCount())).(*Footer).Paragraphs[0].Runs[4].FieldChar.FieldCharType == "separate" && marshalAt(old(marshalCount())).(*Footer).Paragraphs[0].Runs[4].InstrText == nil
+//@ ensures err == nil && showPageNum && text != "" ==> marshalAt(old(marshalCount())).(*Footer).Paragraphs[0].Runs[5].Text.Content == "1" && marshalAt(old(marshalCount())).(*Footer).Paragraphs[0].Runs[5].FieldChar == nil && marshalAt(old(marshalCount())).(*Footer).Paragraphs[0].Runs[5].InstrText == nil
+//@ ensures err == nil && showPageNum && text != "" ==> marshalAt(old(marshalCount())).(*Footer).Paragraphs[0].Runs[6].FieldChar != nil && marshalAt(old(marshalCount())).(*Footer).Paragraphs[0].Runs[6].FieldChar.FieldCharType == "end" && marshalAt(old(marshalCount())).(*Footer).Paragraphs[0].Runs[6].InstrText == nil
+//@ ensures err == nil && showPageNum && text != "" ==> marshalAt(old(marshalCount())).(*Footer).Paragraphs[0].Runs[7].Text.Content == " 页" && marshalAt(old(marshalCount())).(*Footer).Paragraphs[0].Runs[7].FieldChar == nil && marshalAt(old(marshalCount())).(*Footer).Paragraphs[0].Runs[7].InstrText == nil
+//@ ensures err == nil && showPageNum && text == "" ==> marshalAt(old(marshalCount())).(*Footer).Paragraphs[0].Runs[0].Text.Content == " 第 " && marshalAt(old(marshalCount())).(*Footer).Paragraphs[0].Runs[0].FieldChar == nil && marshalAt(old(marshalCount())).(*Footer).Paragraphs[0].Runs[0].InstrText == nil
+//@ ensures err == nil && showPageNum && text == "" ==> marshalAt(old(marshalCount())).(*Footer).Paragraphs[0].Runs[1].FieldChar != nil && marshalAt(old(marshalCount())).(*Footer).Paragraphs[0].Runs[1].FieldChar.FieldCharType == "begin" && marshalAt(old(marshalCount())).(*Footer).Paragraphs[0].Runs[1].InstrText == nil
+//@ ensures err == nil && showPageNum && text == "" ==> marshalAt(old(marshalCount())).(*Footer).Paragraphs[0].Runs[2].InstrText != nil && marshalAt(old(marshalCount())).(*Footer).Paragraphs[0].Runs[2].InstrText.Content == " PAGE  \\* MERGEFORMAT " && marshalAt(old(marshalCount())).(*Footer).Paragraphs[0].Runs[2].FieldChar == nil
+//@ ensures err == nil && showPageNum && text == "" ==> marshalAt(old(marshalCount())).(*Footer).Paragraphs[0].Runs[3].FieldChar != nil && marshalAt(old(marshalCount())).(*Footer).Paragraphs[0].Runs[3].FieldChar.FieldCharType == "separate" && marshalAt(old(marshalCount())).(*Footer).Paragraphs[0].Runs[3].InstrText == nil
+//@ ensures err == nil && showPageNum && text == "" ==> marshalAt(old(marshalCount())).(*Footer).Paragraphs[0].Runs[4].Text.Content == "1" && marshalAt(old(marshalCount())).(*Footer).Paragraphs[0].Runs[4].FieldChar == nil && marshalAt(old(marshalCount())).(*Footer).Paragraphs[0].Runs[4].InstrText == nil
+//@ ensures err == nil && showPageNum && text == "" ==> marshalAt(old(marshalCount())).(*Footer).Paragraphs[0].Runs[5].FieldChar != nil && marshalAt(old(marshalCount())).(*Footer).Paragraphs[0].Runs[5].FieldChar.FieldCharType == "end" && marshalAt(old(marshalCount())).(*Footer).Paragraphs[0].Runs[5].InstrText == nil
+//@ ensures err == nil && showPageNum && text == "" ==> marshalAt(old(marshalCount())).(*Footer).Paragraphs[0].Runs[6].Text.Content == " 页" && marshalAt(old(marshalCount())).(*Footer).Paragraphs[0].Runs[6].FieldChar == nil && marshalAt(old(marshalCount())).(*Footer).Paragraphs[0].Runs[6].InstrText == nil
+// section settings found or created: never a second element, every other body element stays in place
+//@ ensures elemsOK(d.Body.Elements)
+//@ ensures err == nil && !old(noSect(d.Body.Elements)) ==> len(d.Body.Elements) == old(len(d.Body.Elements))
+//@ ensures err == nil && old(noSect(d.Body.Elements)) ==> len(d.Body.Elements) == old(len(d.Body.Elements)) + 1 && isSect(d.Body.Elements[old(len(d.Body.Elements))]) && fresh(d.Body.Elements[old(len(d.Body.Elements))].(*SectionProperties))
+//@ ensures err == nil ==> forall j int :: 0 <= j && j < old(len(d.Body.Elements)) ==> d.Body.Elements[j] == old(d.Body.Elements[j])
+// exactly one reference of the kind, and its id resolves to a relationship of the right type whose target is the kind's part:
+// (a) fresh section settings
+//@ ensures err == nil && old(noSect(d.Body.Elements)) ==> len(d.Body.Elements[old(len(d.Body.Elements))].(*SectionProperties).FooterReferences) == 1 && len(d.Body.Elements[old(len(d.Body.Elements))].(*SectionProperties).HeaderReferences) == 0 && d.Body.Elements[old(len(d.Body.Elements))].(*SectionProperties).TitlePage == nil && ftrOneAt(d.Body.Elements[old(len(d.Body.Elements))].(*SectionProperties).FooterReferences, 0, string(footerType), d.Body.Elements[old(len(d.Body.Elements))].(*SectionProperties).FooterReferences[0].ID) && relResolves(d.documentRelationships.Relationships, d.Body.Elements[old(len(d.Body.Elements))].(*SectionProperties).FooterReferences[0].ID, "http://schemas.openxmlformats.org/officeDocument/2006/relationships/footer", hfFile("footer", footerType))
+// (b) existing section settings without a reference of the kind: one fresh reference appended, the earlier entries stay
+//@ ensures err == nil ==> forall s *SectionProperties :: {s.FooterReferences} allocated(s) && old(isFirstSect(d.Body.Elements, s)) && old(ftrNone(s.FooterReferences, string(footerType))) ==> len(s.FooterReferences) == old(len(s.FooterReferences)) + 1 && fresh(s.FooterReferences[old(len(s.FooterReferences))]) && (forall q int :: 0 <= q && q < old(len(s.FooterReferences)) ==> s.FooterReferences[q] == old(s.FooterReferences[q])) && ftrOneAt(s.FooterReferences, old(len(s.FooterReferences)), string(footerType), s.FooterReferences[old(len(s.FooterReferences))].ID) && relResolves(d.documentRelationships.Relationships, s.FooterReferences[old(len(s.FooterReferences))].ID, "http://schemas.openxmlformats.org/officeDocument/2006/relationships/footer", hfFile("footer", footerType))
+// (c) existing reference of the kind (the first one, at k): same list of the same objects, that reference now resolves to the
+//     part's relationship, no other reference changed its id; if the kind was referenced at most once it still is, exactly once
+//@ ensures err == nil ==> forall s *SectionProperties, k int :: {s.FooterReferences[k]} allocated(s) && old(isFirstSect(d.Body.Elements, s)) && old(ftrFirstAt(s.FooterReferences, k, string(footerType))) ==> s.FooterReferences[k] == old(s.FooterReferences[k]) && len(s.FooterReferences) == old(len(s.FooterReferences)) && (forall q int :: 0 <= q && q < len(s.FooterReferences) ==> s.FooterReferences[q] == old(s.FooterReferences[q]))
+//@ ensures err == nil ==> forall s *SectionProperties, k int :: {s.FooterReferences[k]} allocated(s) && old(isFirstSect(d.Body.Elements, s)) && old(ftrFirstAt(s.FooterReferences, k, string(footerType))) ==> s.FooterReferences[k] == old(s.FooterReferences[k]) && relResolves(d.documentRelationships.Relationships, s.FooterReferences[k].ID, "http://schemas.openxmlformats.org/officeDocument/2006/relationships/footer", hfFile("footer", footerType))
+//@ ensures err == nil ==> forall s *SectionProperties, k int :: {s.FooterReferences[k]} allocated(s) && old(isFirstSect(d.Body.Elements, s)) && old(ftrFirstAt(s.FooterReferences, k, string(footerType))) ==> s.FooterReferences[k] == old(s.FooterReferences[k]) && (forall r *FooterReference :: allocated(r) && r != old(s.FooterReferences[k]) ==> r.ID == old(r.ID))
+//@ ensures err == nil ==> forall s *SectionProperties, k int :: {s.FooterReferences[k]} allocated(s) && old(isFirstSect(d.Body.Elements, s)) && old(ftrFirstAt(s.FooterReferences, k, string(footerType))) && old(ftrAtMostOne(s.FooterReferences, string(footerType))) ==> ftrOneAt(s.FooterReferences, k, string(footerType), s.FooterReferences[k].ID)
+//@ ensures err == nil && (old(noSect(d.Body.Elements)) || (forall s *SectionProperties :: allocated(s) && old(isFirstSect(d.Body.Elements, s)) ==> old(ftrNone(s.FooterReferences, string(footerType))))) ==> forall r *FooterReference :: allocated(r) ==> r.ID == old(r.ID)
+// the other kinds, the header references and every other section-properties object are untouched
+//@ ensures err == nil ==> forall s *SectionProperties :: {s.FooterReferences} allocated(s) && old(isFirstSect(d.Body.Elements, s)) && string(footerType) != "default" && old(ftrAtMostOne(s.FooterReferences, "default")) ==> ftrAtMostOne(s.FooterReferences, "default")
+//@ ensures err == nil ==> forall s *SectionProperties :: {s.FooterReferences} allocated(s) && old(isFirstSect(d.Body.Elements, s)) && string(footerType) != "first" && old(ftrAtMostOne(s.FooterReferences, "first")) ==> ftrAtMostOne(s.FooterReferences, "first")
+//@ ensures err == nil ==> forall s *SectionProperties :: {s.FooterReferences} allocated(s) && old(isFirstSect(d.Body.Elements, s)) && string(footerType) != "even" && old(ftrAtMostOne(s.FooterReferences, "even")) ==> ftrAtMostOne(s.FooterReferences, "even")
+//@ ensures forall s *SectionProperties :: {s.FooterReferences} allocated(s) && !old(isFirstSect(d.Body.Elements, s)) ==> s.FooterReferences == old(s.FooterReferences)
+//@ ensures forall s *SectionProperties :: {s.XmlnsR} allocated(s) && !old(isFirstSect(d.Body.Elements, s)) ==> s.XmlnsR == old(s.XmlnsR)
+//@ ensures forall s *SectionProperties :: {s.XmlnsR} allocated(s) && old(s.XmlnsR) != "" ==> s.XmlnsR == old(s.XmlnsR)
+// canonical references (the invariant behind "each kind has exactly one, current definition"): every reference of a valid kind
+// resolves, in the document relationship list, to a relationship of the right type whose target is the part of THAT kind
+//@ ensures err == nil && old(noSect(d.Body.Elements)) ==> hdrCanon(d.Body.Elements[old(len(d.Body.Elements))].(*SectionProperties).HeaderReferences, d.documentRelationships.Relationships) && ftrCanon(d.Body.Elements[old(len(d.Body.Elements))].(*SectionProperties).FooterReferences, d.documentRelationships.Relationships)
+//@ ensures err == nil ==> forall s *SectionProperties :: {s.FooterReferences} allocated(s) && old(isFirstSect(d.Body.Elements, s)) && old(ftrNone(s.FooterReferences, string(footerType))) && old(ftrCanon(s.FooterReferences, d.documentRelationships.Relationships)) ==> ftrCanon(s.FooterReferences, d.documentRelationships.Relationships)
+//@ ensures err == nil ==> forall s *SectionProperties, k int :: {s.FooterReferences[k]} allocated(s) && old(isFirstSect(d.Body.Elements, s)) && old(ftrFirstAt(s.FooterReferences, k, string(footerType))) && old(ftrCanon(s.FooterReferences, d.documentRelationships.Relationships)) ==> s.FooterReferences[k] == old(s.FooterReferences[k]) && ftrCanon(s.FooterReferences, d.documentRelationships.Relationships)
+//@ ensures err == nil ==> forall s *SectionProperties :: {s.HeaderReferences} allocated(s) && old(isFirstSect(d.Body.Elements, s)) && old(hdrCanon(s.HeaderReferences, d.documentRelationships.Relationships)) ==> hdrCanon(s.HeaderReferences, d.documentRelationships.Relationships)
+//@ ensures unchangedExcept("map:string:[]byte", "Relationships.Relationships", "Relationship.*", "ContentTypes.Overrides", "Override.*", "Body.Elements", "cell:any", "SectionProperties.XmlnsR", "SectionProperties.FooterReferences", "FooterReference.ID", "cell:*FooterReference")
+
+//@ func (*Document).AddFormattedHeader
+//@ props C11, C02
+//@ requires docParts(d) && elemsOK(d.Body.Elements)
+// failure (a kind that is not one of the three, or the serialiser reports an error): nothing has changed
+//@ ensures !validKind(headerType) ==> err != nil
+//@ ensures err != nil ==> unchangedHeap()
+//@ ensures err == nil ==> d.Body == old(d.Body) && d.parts == old(d.parts) && d.contentTypes == old(d.contentTypes) && d.documentRelationships == old(d.documentRelationships)
+// the part of the kind is (re)written, every other part stays
+//@ ensures err == nil ==> has(d.parts, "word/" + hfFile("header", headerType))
+//@ ensures err == nil ==> forall k string :: k != "word/" + hfFile("header", headerType) ==> has(d.parts, k) == old(has(d.parts, k)) && d.parts[k] == old(d.parts[k])
+// relationship of the part: found (list unchanged) or exactly one appended (fresh id, never "rId1"); earlier ones stay
+//@ ensures err == nil && !old(relNone(d.documentRelationships.Relationships, "http://schemas.openxmlformats.org/officeDocument/2006/relationships/header", hfFile("header", headerType))) ==> len(d.documentRelationships.Relationships) == old(len(d.documentRelationships.Relationships))
+//@ ensures err == nil && old(relNone(d.documentRelationships.Relationships, "http://schemas.openxmlformats.org/officeDocument/2006/relationships/header", hfFile("header", headerType))) ==> len(d.documentRelationships.Relationships) == old(len(d.documentRelationships.Relationships)) + 1 && d.documentRelationships.Relationships[old(len(d.documentRelationships.Relationships))].Type == "http://schemas.openxmlformats.org/officeDocument/2006/relationships/header" && d.documentRelationships.Relationships[old(len(d.documentRelationships.Relationships))].Target == hfFile("header", headerType) && d.documentRelationships.Relationships[old(len(d.documentRelationships.Relationships))].ID != "rId1"
+//@ ensures err == nil && old(relNone(d.documentRelationships.Relationships, "http://schemas.openxmlformats.org/officeDocument/2006/relationships/header", hfFile("header", headerType))) ==> forall j int :: 0 <= j && j < old(len(d.documentRelationships.Relationships)) ==> d.documentRelationships.Relationships[j].ID != d.documentRelationships.Relationships[old(len(d.documentRelationships.Relationships))].ID
+//@ ensures err == nil ==> forall j int :: 0 <= j && j < old(len(d.documentRelationships.Relationships)) ==> d.documentRelationships.Relationships[j] == old(d.documentRelationships.Relationships[j])
+//@ ensures err == nil && old(relIDsUnique(d.documentRelationships.Relationships)) ==> relIDsUnique(d.documentRelationships.Relationships)
+// content type of the part registered once; earlier overrides stay
+//@ ensures err == nil ==> ctHas(d.contentTypes.Overrides, "/" + ("word/" + hfFile("header", headerType)))
+//@ ensures err == nil && old(ctHas(d.contentTypes.Overrides, "/" + ("word/" + hfFile("header", headerType)))) ==> len(d.contentTypes.Overrides) == old(len(d.contentTypes.Overrides))
+//@ ensures err == nil && !old(ctHas(d.contentTypes.Overrides, "/" + ("word/" + hfFile("header", headerType)))) ==> len(d.contentTypes.Overrides) == old(len(d.contentTypes.Overrides)) + 1 && d.contentTypes.Overrides[old(len(d.contentTypes.Overrides))].PartName == "/" + ("word/" + hfFile("header", headerType)) && d.contentTypes.Overrides[old(len(d.contentTypes.Overrides))].ContentType == "application/vnd.openxmlformats-officedocument.wordprocessingml.header+xml"
+//@ ensures err == nil ==> forall j int :: 0 <= j && j < old(len(d.contentTypes.Overrides)) ==> d.contentTypes.Overrides[j] == old(d.contentTypes.Overrides[j])
+// what is serialised: one fresh Header with a single paragraph; the part ends with the bytes the serialiser returned for it
+//@ ensures err == nil ==> marshalCount() == old(marshalCount()) + 1 && typeIs(marshalAt(old(marshalCount())), "*Header") && fresh(marshalAt(old(marshalCount())).(*Header)) && len(marshalAt(old(marshalCount())).(*Header).Paragraphs) == 1 && fresh(marshalAt(old(marshalCount())).(*Header).Paragraphs[0])
+//@ ensures err == nil ==> len(d.parts["word/" + hfFile("header", headerType)]) >= len(marshalOut(old(marshalCount()))) && (forall i int :: 0 <= i && i < len(marshalOut(old(marshalCount()))) ==> d.parts["word/" + hfFile("header", headerType)][len(d.parts["word/" + hfFile("header", headerType)]) - len(marshalOut(old(marshalCount()))) + i] == marshalOut(old(marshalCount()))[i])
+//@ ensures err != nil ==> marshalCount() == old(marshalCount())
+// the paragraph is the one createFormattedParagraph builds from the configuration (text, alignment, run formatting; see its contract)
+//@ ensures err == nil && config != nil ==> (config.Alignment == "" ==> marshalAt(old(marshalCount())).(*Header).Paragraphs[0].Properties == nil) && (config.Alignment != "" ==> marshalAt(old(marshalCount())).(*Header).Paragraphs[0].Properties != nil && marshalAt(old(marshalCount())).(*Header).Paragraphs[0].Properties.Justification != nil && marshalAt(old(marshalCount())).(*Header).Paragraphs[0].Properties.Justification.Val == string(config.Alignment))
+//@ ensures err == nil && config != nil ==> (config.Text == "" ==> len(marshalAt(old(marshalCount())).(*Header).Paragraphs[0].Runs) == 0) && (config.Text != "" ==> len(marshalAt(old(marshalCount())).(*Header).Paragraphs[0].Runs) == 1 && marshalAt(old(marshalCount())).(*Header).Paragraphs[0].Runs[0].Text.Content == config.Text && marshalAt(old(marshalCount())).(*Header).Paragraphs[0].Runs[0].Text.Space == "preserve" && (config.Format == nil ==> marshalAt(old(marshalCount())).(*Header).Paragraphs[0].Runs[0].Properties == nil))
+//@ ensures err == nil && config != nil && config.Text != "" && config.Format != nil ==> marshalAt(old(marshalCount())).(*Header).Paragraphs[0].Runs[0].Properties != nil && (marshalAt(old(marshalCount())).(*Header).Paragraphs[0].Runs[0].Properties.Bold != nil) == config.Format.Bold && (marshalAt(old(marshalCount())).(*Header).Paragraphs[0].Runs[0].Properties.Italic != nil) == config.Format.Italic && (marshalAt(old(marshalCount())).(*Header).Paragraphs[0].Runs[0].Properties.Underline != nil) == config.Format.Underline && (marshalAt(old(marshalCount())).(*Header).Paragraphs[0].Runs[0].Properties.Strike != nil) == config.Format.Strike
+//@ ensures err == nil && config != nil && config.Text != "" && config.Format != nil ==> (config.Format.FontSize > 0 ==> marshalAt(old(marshalCount())).(*Header).Paragraphs[0].Runs[0].Properties.FontSize != nil && marshalAt(old(marshalCount())).(*Header).Paragraphs[0].Runs[0].Properties.FontSize.Val == itoa(config.Format.FontSize * 2)) && (config.Format.FontColor != "" ==> marshalAt(old(marshalCount())).(*Header).Paragraphs[0].Runs[0].Properties.Color != nil && marshalAt(old(marshalCount())).(*Header).Paragraphs[0].Runs[0].Properties.Color.Val == strings.TrimPrefix(config.Format.FontColor, "#")) && (fmtFont(config.Format) != "" ==> marshalAt(old(marshalCount())).(*Header).Paragraphs[0].Runs[0].Properties.FontFamily != nil && marshalAt(old(marshalCount())).(*Header).Paragraphs[0].Runs[0].Properties.FontFamily.ASCII == fmtFont(config.Format)) && (config.Format.Highlight != "" ==> marshalAt(old(marshalCount())).(*Header).Paragraphs[0].Runs[0].Properties.Highlight != nil && marshalAt(old(marshalCount())).(*Header).Paragraphs[0].Runs[0].Properties.Highlight.Val == config.Format.Highlight)
+//@ ensures err == nil && config == nil ==> marshalAt(old(marshalCount())).(*Header).Paragraphs[0].Properties == nil && len(marshalAt(old(marshalCount())).(*Header).Paragraphs[0].Runs) == 0
+// section settings found or created: never a second element, every other body element stays in place
+//@ ensures elemsOK(d.Body.Elements)
+//@ ensures err == nil && !old(noSect(d.Body.Elements)) ==> len(d.Body.Elements) == old(len(d.Body.Elements))
+//@ ensures err == nil && old(noSect(d.Body.Elements)) ==> len(d.Body.Elements) == old(len(d.Body.Elements)) + 1 && isSect(d.Body.Elements[old(len(d.Body.Elements))]) && fresh(d.Body.Elements[old(len(d.Body.Elements))].(*SectionProperties))
+//@ ensures err == nil ==> forall j int :: 0 <= j && j < old(len(d.Body.Elements)) ==> d.Body.Elements[j] == old(d.Body.Elements[j])
+// exactly one reference of the kind, and its id resolves to a relationship of the right type whose target is the kind's part:
+// (a) fresh section settings
+//@ ensures err == nil && old(noSect(d.Body.Elements)) ==> len(d.Body.Elements[old(len(d.Body.Elements))].(*SectionProperties).HeaderReferences) == 1 && len(d.Body.Elements[old(len(d.Body.Elements))].(*SectionProperties).FooterReferences) == 0 && d.Body.Elements[old(len(d.Body.Elements))].(*SectionProperties).TitlePage == nil && hdrOneAt(d.Body.Elements[old(len(d.Body.Elements))].(*SectionProperties).HeaderReferences, 0, string(headerType), d.Body.Elements[old(len(d.Body.Elements))].(*SectionProperties).HeaderReferences[0].ID) && relResolves(d.documentRelationships.Relationships, d.Body.Elements[old(len(d.Body.Elements))].(*SectionProperties).HeaderReferences[0].ID, "http://schemas.openxmlformats.org/officeDocument/2006/relationships/header", hfFile("header", headerType))
+// (b) existing section settings without a reference of the kind: one fresh reference appended, the earlier entries stay
+//@ ensures err == nil ==> forall s *SectionProperties :: {s.HeaderReferences} allocated(s) && old(isFirstSect(d.Body.Elements, s)) && old(hdrNone(s.HeaderReferences, string(headerType))) ==> len(s.HeaderReferences) == old(len(s.HeaderReferences)) + 1 && fresh(s.HeaderReferences[old(len(s.HeaderReferences))]) && (forall q int :: 0 <= q && q < old(len(s.HeaderReferences)) ==> s.HeaderReferences[q] == old(s.HeaderReferences[q])) && hdrOneAt(s.HeaderReferences, old(len(s.HeaderReferences)), string(headerType), s.HeaderReferences[old(len(s.HeaderReferences))].ID) && relResolves(d.documentRelationships.Relationships, s.HeaderReferences[old(len(s.HeaderReferences))].ID, "http://schemas.openxmlformats.org/officeDocument/2006/relationships/header", hfFile("header", headerType))
+// (c) existing reference of the kind (the first one, at k): same list of the same objects, that reference now resolves to the
+//     part's relationship, no other reference changed its id; if the kind was referenced at most once it still is, exactly once
+//@ ensures err == nil ==> forall s *SectionProperties, k int :: {s.HeaderReferences[k]} allocated(s) && old(isFirstSect(d.Body.Elements, s)) && old(hdrFirstAt(s.HeaderReferences, k, string(headerType))) ==> s.HeaderReferences[k] == old(s.HeaderReferences[k]) && len(s.HeaderReferences) == old(len(s.HeaderReferences)) && (forall q int :: 0 <= q && q < len(s.HeaderReferences) ==> s.HeaderReferences[q] == old(s.HeaderReferences[q]))
+//@ ensures err == nil ==> forall s *SectionProperties, k int :: {s.HeaderReferences[k]} allocated(s) && old(isFirstSect(d.Body.Elements, s)) && old(hdrFirstAt(s.HeaderReferences, k, string(headerType))) ==> s.HeaderReferences[k] == old(s.HeaderReferences[k]) && relResolves(d.documentRelationships.Relationships, s.HeaderReferences[k].ID, "http://schemas.openxmlformats.org/officeDocument/2006/relationships/header", hfFile("header", headerType))
+//@ ensures err == nil ==> forall s *SectionProperties, k int :: {s.HeaderReferences[k]} allocated(s) && old(isFirstSect(d.Body.Elements, s)) && old(hdrFirstAt(s.HeaderReferences, k, string(headerType))) ==> s.HeaderReferences[k] == old(s.HeaderReferences[k]) && (forall r *HeaderFooterReference :: allocated(r) && r != old(s.HeaderReferences[k]) ==> r.ID == old(r.ID))
+//@ ensures err == nil ==> forall s *SectionProperties, k int :: {s.HeaderReferences[k]} allocated(s) && old(isFirstSect(d.Body.Elements, s)) && old(hdrFirstAt(s.HeaderReferences, k, string(headerType))) && old(hdrAtMostOne(s.HeaderReferences, string(headerType))) ==> hdrOneAt(s.HeaderReferences, k, string(headerType), s.HeaderReferences[k].ID)
+//@ ensures err == nil && (old(noSect(d.Body.Elements)) || (forall s *SectionProperties :: allocated(s) && old(isFirstSect(d.Body.Elements, s)) ==> old(hdrNone(s.HeaderReferences, string(headerType))))) ==> forall r *HeaderFooterReference :: allocated(r) ==> r.ID == old(r.ID)
+// the other kinds, the footer references and every other section-properties object are untouched
+//@ ensures err == nil ==> forall s *SectionProperties :: {s.HeaderReferences} allocated(s) && old(isFirstSect(d.Body.Elements, s)) && string(headerType) != "default" && old(hdrAtMostOne(s.HeaderReferences, "default")) ==> hdrAtMostOne(s.HeaderReferences, "default")
+//@ ensures err == nil ==> forall s *SectionProperties :: {s.HeaderReferences} allocated(s) && old(isFirstSect(d.Body.Elements, s)) && string(headerType) != "first" && old(hdrAtMostOne(s.HeaderReferences, "first")) ==> hdrAtMostOne(s.HeaderReferences, "first")
+//@ ensures err == nil ==> forall s *SectionProperties :: {s.HeaderReferences} allocated(s) && old(isFirstSect(d.Body.Elements, s)) && string(headerType) != "even" && old(hdrAtMostOne(s.HeaderReferences, "even")) ==> hdrAtMostOne(s.HeaderReferences, "even")
+//@ ensures forall s *SectionProperties :: {s.HeaderReferences} allocated(s) && !old(isFirstSect(d.Body.Elements, s)) ==> s.HeaderReferences == old(s.HeaderReferences)
+//@ ensures forall s *SectionProperties :: {s.XmlnsR} allocated(s) && !old(isFirstSect(d.Body.Elements, s)) ==> s.XmlnsR == old(s.XmlnsR)
+//@ ensures forall s *SectionProperties :: {s.XmlnsR} allocated(s) && old(s.XmlnsR) != "" ==> s.XmlnsR == old(s.XmlnsR)
+// canonical references (the invariant behind "each kind has exactly one, current definition"): every reference of a valid kind
+// resolves, in the document relationship list, to a relationship of the right type whose target is the part of THAT kind
+//@ ensures err == nil && old(noSect(d.Body.Elements)) ==> hdrCanon(d.Body.Elements[old(len(d.Body.Elements))].(*SectionProperties).HeaderReferences, d.documentRelationships.Relationships) && ftrCanon(d.Body.Elements[old(len(d.Body.Elements))].(*SectionProperties).FooterReferences, d.documentRelationships.Relationships)
+//@ ensures err == nil ==> forall s *SectionProperties :: {s.HeaderReferences} allocated(s) && old(isFirstSect(d.Body.Elements, s)) && old(hdrNone(s.HeaderReferences, string(headerType))) && old(hdrCanon(s.HeaderReferences, d.documentRelationships.Relationships)) ==> hdrCanon(s.HeaderReferences, d.documentRelationships.Relationships)
+//@ ensures err == nil ==> forall s *SectionProperties, k int :: {s.HeaderReferences[k]} allocated(s) && old(isFirstSect(d.Body.Elements, s)) && old(hdrFirstAt(s.HeaderReferences, k, string(headerType))) && old(hdrCanon(s.HeaderReferences, d.documentRelationships.Relationships)) ==> s.HeaderReferences[k] == old(s.HeaderReferences[k]) && hdrCanon(s.HeaderReferences, d.documentRelationships.Relationships)
+//@ ensures err == nil ==> forall s *SectionProperties :: {s.FooterReferences} allocated(s) && old(isFirstSect(d.Body.Elements, s)) && old(ftrCanon(s.FooterReferences, d.documentRelationships.Relationships)) ==> ftrCanon(s.FooterReferences, d.documentRelationships.Relationships)
+//@ ensures unchangedExcept("map:string:[]byte", "Relationships.Relationships", "Relationship.*", "ContentTypes.Overrides", "Override.*", "Body.Elements", "cell:any", "SectionProperties.XmlnsR", "SectionProperties.HeaderReferences", "HeaderFooterReference.ID", "cell:*HeaderFooterReference")
+
+//@ func (*Document).AddFormattedFooter
+//@ props C11, C02
+//@ requires docParts(d) && elemsOK(d.Body.Elements)
+// failure (a kind that is not one of the three, or the serialiser reports an error): nothing has changed
+//@ ensures !validKind(footerType) ==> err != nil
+//@ ensures err != nil ==> unchangedHeap()
+//@ ensures err == nil ==> d.Body == old(d.Body) && d.parts == old(d.parts) && d.contentTypes == old(d.contentTypes) && d.documentRelationships == old(d.documentRelationships)
+// the part of the kind is (re)written, every other part stays
+//@ ensures err == nil ==> has(d.parts, "word/" + hfFile("footer", footerType))
+//@ ensures err == nil ==> forall k string :: k != "word/" + hfFile("footer", footerType) ==> has(d.parts, k) == old(has(d.parts, k)) && d.parts[k] == old(d.parts[k])
+// relationship of the part: found (list unchanged) or exactly one appended (fresh id, never "rId1"); earlier ones stay
+//@ ensures err == nil && !old(relNone(d.documentRelationships.Relationships, "http://schemas.openxmlformats.org/officeDocument/2006/relationships/footer", hfFile("footer", footerType))) ==> len(d.documentRelationships.Relationships) == old(len(d.documentRelationships.Relationships))
+//@ ensures err == nil && old(relNone(d.documentRelationships.Relationships, "http://schemas.openxmlformats.org/officeDocument/2006/relationships/footer", hfFile("footer", footerType))) ==> len(d.documentRelationships.Relationships) == old(len(d.documentRelationships.Relationships)) + 1 && d.documentRelationships.Relationships[old(len(d.documentRelationships.Relationships))].Type == "http://schemas.openxmlformats.org/officeDocument/2006/relationships/footer" && d.documentRelationships.Relationships[old(len(d.documentRelationships.Relationships))].Target == hfFile("footer", footerType) && d.documentRelationships.Relationships[old(len(d.documentRelationships.Relationships))].ID != "rId1"
+//@ ensures err == nil && old(relNone(d.documentRelationships.Relationships, "http://schemas.openxmlformats.org/officeDocument/2006/relationships/footer", hfFile("footer", footerType))) ==> forall j int :: 0 <= j && j < old(len(d.documentRelationships.Relationships)) ==> d.documentRelationships.Relationships[j].ID != d.documentRelationships.Relationships[old(len(d.documentRelationships.Relationships))].ID
+//@ ensures err == nil ==> forall j int :: 0 <= j && j < old(len(d.documentRelationships.Relationships)) ==> d.documentRelationships.Relationships[j] == old(d.documentRelationships.Relationships[j])
+//@ ensures err == nil && old(relIDsUnique(d.documentRelationships.Relationships)) ==> relIDsUnique(d.documentRelationships.Relationships)
+// content type of the part registered once; earlier overrides stay
+//@ ensures err == nil ==> ctHas(d.contentTypes.Overrides, "/" + ("word/" + hfFile("footer", footerType)))
+//@ ensures err == nil && old(ctHas(d.contentTypes.Overrides, "/" + ("word/" + hfFile("footer", footerType)))) ==> len(d.contentTypes.Overrides) == old(len(d.contentTypes.Overrides))
+//@ ensures err == nil && !old(ctHas(d.contentTypes.Overrides, "/" + ("word/" + hfFile("footer", footerType)))) ==> len(d.contentTypes.Overrides) == old(len(d.contentTypes.Overrides)) + 1 && d.contentTypes.Overrides[old(len(d.contentTypes.Overrides))].PartName == "/" + ("word/" + hfFile("footer", footerType)) && d.contentTypes.Overrides[old(len(d.contentTypes.Overrides))].ContentType == "application/vnd.openxmlformats-officedocument.wordprocessingml.footer+xml"
+//@ ensures err == nil ==> forall j int :: 0 <= j && j < old(len(d.contentTypes.Overrides)) ==> d.contentTypes.Overrides[j] == old(d.contentTypes.Overrides[j])
+// what is serialised: one fresh Footer with a single paragraph; the part ends with the bytes the serialiser returned for it
+//@ ensures err == nil ==> marshalCount() == old(marshalCount()) + 1 && typeIs(marshalAt(old(marshalCount())), "*Footer") && fresh(marshalAt(old(marshalCount())).(*Footer)) && len(marshalAt(old(marshalCount())).(*Footer).Paragraphs) == 1 && fresh(marshalAt(old(marshalCount())).(*Footer).Paragraphs[0])
+//@ ensures err == nil ==> len(d.parts["word/" + hfFile("footer", footerType)]) >= len(marshalOut(old(marshalCount()))) && (forall i int :: 0 <= i && i < len(marshalOut(old(marshalCount()))) ==> d.parts["word/" + hfFile("footer", footerType)][len(d.parts["word/" + hfFile("footer", footerType)]) - len(marshalOut(old(marshalCount()))) + i] == marshalOut(old(marshalCount()))[i])
+//@ ensures err != nil ==> marshalCount() == old(marshalCount())
+// the paragraph is the one createFormattedParagraph builds from the configuration (text, alignment, run formatting; see its contract)
+//@ ensures err == nil && config != nil ==> (config.Alignment == "" ==> marshalAt(old(marshalCount())).(*Footer).Paragraphs[0].Properties == nil) && (config.Alignment != "" ==> marshalAt(old(marshalCount())).(*Footer).Paragraphs[0].Properties != nil && marshalAt(old(marshalCount())).(*Footer).Paragraphs[0].Properties.Justification != nil && marshalAt(old(marshalCount())).(*Footer).Paragraphs[0].Properties.Justification.Val == string(config.Alignment))
+//@ ensures err == nil && config != nil ==> (config.Text == "" ==> len(marshalAt(old(marshalCount())).(*Footer).Paragraphs[0].Runs) == 0) && (config.Text != "" ==> len(marshalAt(old(marshalCount())).(*Footer).Paragraphs[0].Runs) == 1 && marshalAt(old(marshalCount())).(*Footer).Paragraphs[0].Runs[0].Text.Content == config.Text && marshalAt(old(marshalCount())).(*Footer).Paragraphs[0].Runs[0].Text.Space == "preserve" && (config.Format == nil ==> marshalAt(old(marshalCount())).(*Footer).Paragraphs[0].Runs[0].Properties == nil))
+//@ ensures err == nil && config != nil && config.Text != "" && config.Format != nil ==> marshalAt(old(marshalCount())).(*Footer).Paragraphs[0].Runs[0].Properties != nil && (marshalAt(old(marshalCount())).(*Footer).Paragraphs[0].Runs[0].Properties.Bold != nil) == config.Format.Bold && (marshalAt(old(marshalCount())).(*Footer).Paragraphs[0].Runs[0].Properties.Italic != nil) == config.Format.Italic && (marshalAt(old(marshalCount())).(*Footer).Paragraphs[0].Runs[0].Properties.Underline != nil) == config.Format.Underline && (marshalAt(old(marshalCount())).(*Footer).Paragraphs[0].Runs[0].Properties.Strike != nil) == config.Format.Strike
+//@ ensures err == nil && config != nil && config.Text != "" && config.Format != nil ==> (config.Format.FontSize > 0 ==> marshalAt(old(marshalCount())).(*Footer).Paragraphs[0].Runs[0].Properties.FontSize != nil && marshalAt(old(marshalCount())).(*Footer).Paragraphs[0].Runs[0].Properties.FontSize.Val == itoa(config.Format.FontSize * 2)) && (config.Format.FontColor != "" ==> marshalAt(old(marshalCount())).(*Footer).Paragraphs[0].Runs[0].Properties.Color != nil && marshalAt(old(marshalCount())).(*Footer).Paragraphs[0].Runs[0].Properties.Color.Val == strings.TrimPrefix(config.Format.FontColor, "#")) && (fmtFont(config.Format) != "" ==> marshalAt(old(marshalCount())).(*Footer).Paragraphs[0].Runs[0].Properties.FontFamily != nil && marshalAt(old(marshalCount())).(*Footer).Paragraphs[0].Runs[0].Properties.FontFamily.ASCII == fmtFont(config.Format)) && (config.Format.Highlight != "" ==> marshalAt(old(marshalCount())).(*Footer).Paragraphs[0].Runs[0].Properties.Highlight != nil && marshalAt(old(marshalCount())).(*Footer).Paragraphs[0].Runs[0].Properties.Highlight.Val == config.Format.Highlight)
+//@ ensures err == nil && config == nil ==> marshalAt(old(marshalCount())).(*Footer).Paragraphs[0].Properties == nil && len(marshalAt(old(marshalCount())).(*Footer).Paragraphs[0].Runs) == 0
+// section settings found or created: never a second element, every other body element stays in place
+//@ ensures elemsOK(d.Body.Elements)
+//@ ensures err == nil && !old(noSect(d.Body.Elements)) ==> len(d.Body.Elements) == old(len(d.Body.Elements))
+//@ ensures err == nil && old(noSect(d.Body.Elements)) ==> len(d.Body.Elements) == old(len(d.Body.Elements)) + 1 && isSect(d.Body.Elements[old(len(d.Body.Elements))]) && fresh(d.Body.Elements[old(len(d.Body.Elements))].(*SectionProperties))
+//@ ensures err == nil ==> forall j int :: 0 <= j && j < old(len(d.Body.Elements)) ==> d.Body.Elements[j] == old(d.Body.Elements[j])
+// exactly one reference of the kind, and its id resolves to a relationship of the right type whose target is the kind's part:
+// (a) fresh section settings
+//@ ensures err == nil && old(noSect(d.Body.Elements)) ==> len(d.Body.Elements[old(len(d.Body.Elements))].(*SectionProperties).FooterReferences) == 1 && len(d.Body.Elements[old(len(d.Body.Elements))].(*SectionProperties).HeaderReferences) == 0 && d.Body.Elements[old(len(d.Body.Elements))].(*SectionProperties).TitlePage == nil && ftrOneAt(d.Body.Elements[old(len(d.Body.Elements))].(*SectionProperties).FooterReferences, 0, string(footerType), d.Body.Elements[old(len(d.Body.Elements))].(*SectionProperties).FooterReferences[0].ID) && relResolves(d.documentRelationships.Relationships, d.Body.Elements[old(len(d.Body.Elements))].(*SectionProperties).FooterReferences[0].ID, "http://schemas.openxmlformats.org/officeDocument/2006/relationships/footer", hfFile("footer", footerType))
+// (b) existing section settings without a reference of the kind: one fresh reference appended, the earlier entries stay
+//@ ensures err == nil ==> forall s *SectionProperties :: {s.FooterReferences} allocated(s) && old(isFirstSect(d.Body.Elements, s)) && old(ftrNone(s.FooterReferences, string(footerType))) ==> len(s.FooterReferences) == old(len(s.FooterReferences)) + 1 && fresh(s.FooterReferences[old(len(s.FooterReferences))]) && (forall q int :: 0 <= q && q < old(len(s.FooterReferences)) ==> s.FooterReferences[q] == old(s.FooterReferences[q])) && ftrOneAt(s.FooterReferences, old(len(s.FooterReferences)), string(footerType), s.FooterReferences[old(len(s.FooterReferences))].ID) && relResolves(d.documentRelationships.Relationships, s.FooterReferences[old(len(s.FooterReferences))].ID, "http://schemas.openxmlformats.org/officeDocument/2006/relationships/footer", hfFile("footer", footerType))
+// (c) existing reference of the kind (the first one, at k): same list of the same objects, that reference now resolves to the
+//     part's relationship, no other reference changed its id; if the kind was referenced at most once it still is, exactly once
+//@ ensures err == nil ==> forall s *SectionProperties, k int :: {s.FooterReferences[k]} allocated(s) && old(isFirstSect(d.Body.Elements, s)) && old(ftrFirstAt(s.FooterReferences, k, string(footerType))) ==> s.FooterReferences[k] == old(s.FooterReferences[k]) && len(s.FooterReferences) == old(len(s.FooterReferences)) && (forall q int :: 0 <= q && q < len(s.FooterReferences) ==> s.FooterReferences[q] == old(s.FooterReferences[q]))
+//@ ensures err == nil ==> forall s *SectionProperties, k int :: {s.FooterReferences[k]} allocated(s) && old(isFirstSect(d.Body.Elements, s)) && old(ftrFirstAt(s.FooterReferences, k, string(footerType))) ==> s.FooterReferences[k] == old(s.FooterReferences[k]) && relResolves(d.documentRelationships.Relationships, s.FooterReferences[k].ID, "http://schemas.openxmlformats.org/officeDocument/2006/relationships/footer", hfFile("footer", footerType))
+//@ ensures err == nil ==> forall s *SectionProperties, k int :: {s.FooterReferences[k]} allocated(s) && old(isFirstSect(d.Body.Elements, s)) && old(ftrFirstAt(s.FooterReferences, k, string(footerType))) ==> s.FooterReferences[k] == old(s.FooterReferences[k]) && (forall r *FooterReference :: allocated(r) && r != old(s.FooterReferences[k]) ==> r.ID == old(r.ID))
+//@ ensures err == nil ==> forall s *SectionProperties, k int :: {s.FooterReferences[k]} allocated(s) && old(isFirstSect(d.Body.Elements, s)) && old(ftrFirstAt(s.FooterReferences, k, string(footerType))) && old(ftrAtMostOne(s.FooterReferences, string(footerType))) ==> ftrOneAt(s.FooterReferences, k, string(footerType), s.FooterReferences[k].ID)
+//@ ensures err == nil && (old(noSect(d.Body.Elements)) || (forall s *SectionProperties :: allocated(s) && old(isFirstSect(d.Body.Elements, s)) ==> old(ftrNone(s.FooterReferences, string(footerType))))) ==> forall r *FooterReference :: allocated(r) ==> r.ID == old(r.ID)
+// the other kinds, the header references and every other section-properties object are untouched
+//@ ensures err == nil ==> forall s *SectionProperties :: {s.FooterReferences} allocated(s) && old(isFirstSect(d.Body.Elements, s)) && string(footerType) != "default" && old(ftrAtMostOne(s.FooterReferences, "default")) ==> ftrAtMostOne(s.FooterReferences, "default")
+//@ ensures err == nil ==> forall s *SectionProperties :: {s.FooterReferences} allocated(s) && old(isFirstSect(d.Body.Elements, s)) && string(footerType) != "first" && old(ftrAtMostOne(s.FooterReferences, "first")) ==> ftrAtMostOne(s.FooterReferences, "first")
+//@ ensures err == nil ==> forall s *SectionProperties :: {s.FooterReferences} allocated(s) && old(isFirstSect(d.Body.Elements, s)) && string(footerType) != "even" && old(ftrAtMostOne(s.FooterReferences, "even")) ==> ftrAtMostOne(s.FooterReferences, "even")
+//@ ensures forall s *SectionProperties :: {s.FooterReferences} allocated(s) && !old(isFirstSect(d.Body.Elements, s)) ==> s.FooterReferences == old(s.FooterReferences)
+//@ ensures forall s *SectionProperties :: {s.XmlnsR} allocated(s) && !old(isFirstSect(d.Body.Elements, s)) ==> s.XmlnsR == old(s.XmlnsR)
+//@ ensures forall s *SectionProperties :: {s.XmlnsR} allocated(s) && old(s.XmlnsR) != "" ==> s.XmlnsR == old(s.XmlnsR)
+// canonical references (the invariant behind "each kind has exactly one, current definition"): every reference of a valid kind
+// resolves, in the document relationship list, to a relationship of the right type whose target is the part of THAT kind
+//@ ensures err == nil && old(noSect(d.Body.Elements)) ==> hdrCanon(d.Body.Elements[old(len(d.Body.Elements))].(*SectionProperties).HeaderReferences, d.documentRelationships.Relationships) && ftrCanon(d.Body.Elements[old(len(d.Body.Elements))].(*SectionProperties).FooterReferences, d.documentRelationships.Relationships)
+//@ ensures err == nil ==> forall s *SectionProperties :: {s.FooterReferences} allocated(s) && old(isFirstSect(d.Body.Elements, s)) && old(ftrNone(s.FooterReferences, string(footerType))) && old(ftrCanon(s.FooterReferences, d.documentRelationships.Relationships)) ==> ftrCanon(s.FooterReferences, d.documentRelationships.Relationships)
+//@ ensures err == nil ==> forall s *SectionProperties, k int :: {s.FooterReferences[k]} allocated(s) && old(isFirstSect(d.Body.Elements, s)) && old(ftrFirstAt(s.FooterReferences, k, string(footerType))) && old(ftrCanon(s.FooterReferences, d.documentRelationships.Relationships)) ==> s.FooterReferences[k] == old(s.FooterReferences[k]) && ftrCanon(s.FooterReferences, d.documentRelationships.Relationships)
+//@ ensures err == nil ==> forall s *SectionProperties :: {s.HeaderReferences} allocated(s) && old(isFirstSect(d.Body.Elements, s)) && old(hdrCanon(s.HeaderReferences, d.documentRelationships.Relationships)) ==> hdrCanon(s.HeaderReferences, d.documentRelationships.Relationships)
+//@ ensures unchangedExcept("map:string:[]byte", "Relationships.Relationships", "Relationship.*", "ContentTypes.Overrides", "Override.*", "Body.Elements", "cell:any", "SectionProperties.XmlnsR", "SectionProperties.FooterReferences", "FooterReference.ID", "cell:*FooterReference")
+
+// ---- END GENERATED ----
